@@ -1,16 +1,31 @@
 """Tie A — regenerate lean/Dashu/Gen/*.lean from /repo's current source (DESIGN §2.1).
 
-A small translator for the decision-logic subset of Rust used by dashu's glue layer:
-`macro_rules!` sign tables, `round_low_part` mode tables, small predicates, constants and the
-buffer capacity policy.  It FAILS CLOSED: any construct outside the subset raises, the item is
-reported, and ./check treats the property as no longer shown (DESIGN §4).
+Two translators for the decision-logic subset of Rust, both FAIL CLOSED (a construct outside the
+subset or a callee outside the whitelist raises with file:line; ./check then reports the property as
+no longer shown, no-failing-input-found):
 
-Accepted subset: `let` (ident / tuple patterns, `mut` ignored), `if/else if/else`, `match` on a
-tuple or a single scrutinee with constructor / literal / `_` / or-patterns, early `return` inside a
-statement-level `if`, blocks, unary `! - & *`, binary `+ - * / % == != < <= > >= && ||`, method
-calls, calls, paths, tuples, integer literals, `as` casts (erased), `debug_assert*!` (dropped).
-Every method / function name must be in the whitelist PRELUDE below (mapped to
-`Dashu.Model.GluePrelude`); anything else fails closed.
+1. the first one (class `Emit`, untyped): the `macro_rules!` sign tables of the integer glue
+   (Gen/Glue.lean), the six `round_low_part` tables (Gen/Round.lean), constants / capacity policy /
+   small predicates (Gen/Misc.lean).  Callees map onto `Dashu.Model.GluePrelude`.
+2. the typed translator (classes `P2`, `Tr`; one Gen file per AREA, see `build_areas()`): whole
+   function bodies with `let mut` / assignment to variables, fields and tuple fields (state passing),
+   early `return` and panics below the top level (`Sum normal final`, `Except Panic _`), `if let`,
+   in-place kernels (`f_in_place(&mut x, …)`), struct literals, closures under `.map`, const generics,
+   calls of other regenerated functions, constants, and GUARD targets (only the prologue of a body,
+   reduced to panic / returns / continues).  Types are inferred from the signatures; every method,
+   function and operator is looked up by (receiver type, name) in a whitelist; kernels the bodies call
+   but do not contain (digit counts, shifts, estimates, rounding) are fields of a kernel record
+   (`GluePrelude.FloatK`, `RatK` in `Model/GluePrelude/Ext.lean`) that the theorems instantiate with
+   the functions of the hand-written model.
+   The generated text is CANONICAL (comparisons oriented `<` / `<=`, negated comparisons folded,
+   `if !c` arms swapped, `match` on a bool as `if`, closed match arms and the operands of integer
+   `+ * == !=` sorted), so that a behaviour-preserving rewrite regenerates the same definitions; each
+   definition carries its source file, line span and a hash of the source text.
+
+`regenerate()` rewrites only files whose text changed; a failure in a Gen file outside the import
+closure of the calling property's Lean modules does not fail that property.
+`python3 vlib/extract.py --selftest [--prove]` checks the tree against the sources and runs the
+built-in mutation / benign-rewrite tables.
 """
 import os, re, json, hashlib
 
@@ -32,7 +47,7 @@ TOK = re.compile(r"""
   | (?P<num>0x[0-9a-fA-F_]+|\d[\d_]*(?:\.\d+)?(?:[iu](?:8|16|32|64|128|size)|f32|f64)?)
   | (?P<id>\$?[A-Za-z_][A-Za-z0-9_]*)
   | (?P<str>"(?:\\.|[^"\\])*")
-  | (?P<op>=>|==|!=|<=|>=|&&|\|\||->|::|\.\.=|\.\.|<<|>>|[-+*/%!&|^<>=(){}\[\],;:.?#@'])
+  | (?P<op><<=|>>=|=>|==|!=|<=|>=|&&|\|\||->|::|\.\.=|\.\.|<<|>>|\+=|-=|\*=|/=|%=|\|=|&=|\^=|[-+*/%!&|^<>=(){}\[\],;:.?#@'])
 """, re.X | re.S)
 
 
@@ -506,6 +521,327 @@ class Emit:
         raise ExtractError("expression kind " + k)
 
 
+
+# ================================================================== v2: parser extensions
+#
+# P2 keeps what the first translator erased and reads more of Rust: `&mut` (kept as "refmut"),
+# `as` casts (kept with their target type), compound assignment, assignment to fields / tuple
+# fields, `let x: T;` (deferred initialisation), `if let`, struct literals, closures, turbofish
+# arguments of paths.  AST additions:
+#   ("refmut", e) ("cast", e, "usize") ("iflet", pat, e, then, else) ("struct", path, [(f, e)], base)
+#   ("closure", [names], e) ("path", parts, generics) ("letdecl", name) ("assignop", op, place, e)
+#   ("assignp", place, e) ("macro", name)
+
+class P2(P):
+    def path(self):
+        parts = [self.next()[1]]
+        gens = []
+        while self.peek()[1] == "::":
+            self.next()
+            if self.peek()[1] == "<":
+                depth = 0
+                cur = []
+                while True:
+                    t = self.next()[1]
+                    if t == "<":
+                        depth += 1
+                        if depth == 1:
+                            continue
+                    elif t == ">":
+                        depth -= 1
+                        if depth == 0:
+                            break
+                    elif t == ">>":
+                        depth -= 2
+                        if depth <= 0:
+                            break
+                    if t == "," and depth == 1:
+                        gens.append(" ".join(cur)); cur = []
+                    else:
+                        cur.append(t)
+                if cur:
+                    gens.append(" ".join(cur))
+                continue
+            parts.append(self.next()[1])
+        self.last_generics = gens
+        return parts
+
+    def type_text(self):
+        """consume a type after `:` or `as` up to a delimiter at depth 0; returns its text"""
+        depth = 0
+        out = []
+        while True:
+            v = self.peek()[1]
+            if depth == 0 and v in ("=", ",", ")", ";", "{", "}", "|") or self.peek()[0] == "eof":
+                break
+            if v in ("<", "(", "["):
+                depth += 1
+            elif v in (">", ")", "]"):
+                depth -= 1
+            elif v == ">>":
+                depth -= 2
+            out.append(v)
+            self.next()
+        return " ".join(out)
+
+    def pattern1(self):
+        k, v = self.peek()
+        if v in ("&", "mut", "ref"):
+            self.next()
+            return self.pattern1()
+        if v == "-" and self.peek(1)[0] == "num":
+            self.next()
+            return ("plit", "-" + self.next()[1])
+        return P.pattern1(self)
+
+    def place(self, e):
+        """is `e` an assignable place: x, x.f, x.0, x.f.g …"""
+        while e[0] == "field":
+            e = e[1]
+        return e[0] == "path" and len(e[1]) == 1
+
+    ASSIGN_OPS = {"+=": "+", "-=": "-", "*=": "*", "/=": "/", "%=": "%", "<<=": "<<", ">>=": ">>",
+                  "|=": "|", "&=": "&", "^=": "^"}
+
+    def block(self):
+        self.expect("{")
+        stmts = []
+        tail = None
+        while not self.accept("}"):
+            k, v = self.peek()
+            if v == ";":
+                self.next()
+                continue
+            if v == "let":
+                self.next()
+                pat = self.pattern()
+                ty = None
+                if self.accept(":"):
+                    ty = self.type_text()
+                if self.accept(";"):
+                    if pat[0] != "pvar":
+                        raise ExtractError("`let` without initialiser needs a plain name")
+                    stmts.append(("letdecl", pat[1], ty))
+                    continue
+                self.expect("=")
+                e = self.expr()
+                if self.peek()[1] == "else":
+                    raise ExtractError("let-else not supported")
+                self.expect(";")
+                stmts.append(("let", pat, e, ty))
+                continue
+            if v == "return":
+                self.next()
+                e = self.expr() if self.peek()[1] not in (";", "}") else ("unit",)
+                self.accept(";")
+                stmts.append(("return", e))
+                continue
+            if k == "id" and self.peek(1)[1] == "!" and self.peek(2)[1] in ("(", "[", "{"):
+                if v.startswith("debug_assert"):
+                    self.next(); self.next()
+                    self.skip_group()
+                    self.accept(";")
+                    continue
+            if v in ("if", "match"):
+                e = self.primary(False)
+                if self.peek()[1] == "." :
+                    e = self.postfix(e, False)       # `match … { … }.value()`
+                    e = self.expr_rest(e)
+                    if self.accept(";"):
+                        stmts.append(("expr", e))
+                    elif self.peek()[1] == "}":
+                        tail = e
+                    else:
+                        raise ExtractError("unexpected token %r after block expression" % self.peek()[1])
+                    continue
+                if self.peek()[1] == "}":
+                    tail = e
+                else:
+                    self.accept(";")
+                    stmts.append(("expr", e))
+                continue
+            if v in ("while", "for", "loop", "unsafe"):
+                raise ExtractError("`%s` is outside the decision-logic subset" % v)
+            e = self.expr()
+            nv = self.peek()[1]
+            if nv == "=" or nv in self.ASSIGN_OPS:
+                if not self.place(e):
+                    raise ExtractError("assignment to something that is not a variable / field")
+                self.next()
+                rhs = self.expr()
+                self.expect(";")
+                if nv == "=":
+                    stmts.append(("assignp", e, rhs))
+                else:
+                    stmts.append(("assignop", self.ASSIGN_OPS[nv], e, rhs))
+                continue
+            if self.accept(";"):
+                stmts.append(("expr", e))
+            elif self.peek()[1] == "}":
+                tail = e
+            else:
+                raise ExtractError("unexpected token %r after expression" % self.peek()[1])
+        return ("block", stmts, tail)
+
+    def expr_rest(self, lhs, minp=0):
+        """continue a binary-operator chain whose first operand is already parsed"""
+        while True:
+            k, v = self.peek()
+            if v == "as":
+                self.next()
+                lhs = ("cast", lhs, self.cast_type())
+                continue
+            if v in self.BIN and self.BIN[v] >= minp:
+                p = self.BIN[v]
+                self.next()
+                rhs = self.expr(p + 1)
+                lhs = ("bin", v, lhs, rhs)
+                continue
+            break
+        return lhs
+
+    def cast_type(self):
+        parts = self.path()
+        return parts[-1]
+
+    def expr(self, minp=0, nostruct=False):
+        lhs = self.unary(nostruct)
+        while True:
+            k, v = self.peek()
+            if v == "as":
+                self.next()
+                lhs = ("cast", lhs, self.cast_type())
+                continue
+            if v in self.BIN and self.BIN[v] >= minp:
+                p = self.BIN[v]
+                self.next()
+                rhs = self.expr(p + 1, nostruct)
+                lhs = ("bin", v, lhs, rhs)
+                continue
+            break
+        return lhs
+
+    def unary(self, nostruct):
+        k, v = self.peek()
+        if v == "&&":                          # `&&x`
+            self.next()
+            return self.unary(nostruct)
+        if v in ("!", "-", "&", "*"):
+            self.next()
+            mut = False
+            if v == "&" and self.peek()[1] == "mut":
+                self.next()
+                mut = True
+            e = self.unary(nostruct)
+            if mut:
+                return ("refmut", e)
+            if v in ("&", "*"):
+                return e
+            return ("un", v, e)
+        return self.postfix(self.primary(nostruct), nostruct)
+
+    def postfix(self, e, nostruct):
+        while True:
+            v = self.peek()[1]
+            if v == ".":
+                self.next()
+                name = self.next()[1]
+                gens = []
+                if self.peek()[1] == "::":
+                    self.next(); self.skip_generic()
+                if self.peek()[1] == "(":
+                    e = ("mcall", e, name, self.args())
+                else:
+                    e = ("field", e, name)
+                continue
+            if v == "(":
+                e = ("call", e, self.args())
+                continue
+            if v == "?":
+                raise ExtractError("`?` operator not supported")
+            if v == "[":
+                raise ExtractError("indexing is outside the decision-logic subset")
+            break
+        return e
+
+    def primary(self, nostruct):
+        k, v = self.peek()
+        if v == "|" or v == "||":              # closure
+            self.next()
+            names = []
+            if v == "|":
+                while not self.accept("|"):
+                    pat = self.pattern1()
+                    if pat[0] not in ("pvar", "pwild"):
+                        raise ExtractError("closure parameter pattern not supported")
+                    names.append(pat[1] if pat[0] == "pvar" else "_")
+                    if self.accept(":"):
+                        self.type_text()
+                    self.accept(",")
+            return ("closure", names, self.expr())
+        if v == "match":
+            self.next()
+            scrut = self.expr(nostruct=True)
+            self.expect("{")
+            arms = []
+            while not self.accept("}"):
+                pat = self.pattern()
+                if self.accept("if"):
+                    raise ExtractError("match guards not supported")
+                self.expect("=>")
+                body = self.block() if self.peek()[1] == "{" else self.expr()
+                self.accept(",")
+                arms.append((pat, body))
+            return ("match", scrut, arms)
+        if v == "if":
+            self.next()
+            if self.peek()[1] == "let":
+                self.next()
+                pat = self.pattern()
+                self.expect("=")
+                c = self.expr(nostruct=True)
+                t = self.block()
+                e = None
+                if self.accept("else"):
+                    e = self.primary(nostruct) if self.peek()[1] == "if" else self.block()
+                return ("iflet", pat, c, t, e)
+            c = self.expr(nostruct=True)
+            t = self.block()
+            e = None
+            if self.accept("else"):
+                e = self.primary(nostruct) if self.peek()[1] == "if" else self.block()
+            return ("if", c, t, e)
+        if v in ("while", "for", "loop", "unsafe"):
+            raise ExtractError("`%s` is outside the decision-logic subset" % v)
+        if v == "return":                      # `return e` in expression position (a match arm)
+            self.next()
+            e = self.expr() if self.peek()[1] not in (",", ";", "}", ")") else ("unit",)
+            return ("ret", e)
+        if k == "id":
+            path = self.path()
+            gens = self.last_generics
+            if self.peek()[1] == "!" and self.peek(1)[1] in ("(", "[", "{"):
+                self.next()
+                self.skip_group()
+                return ("macro", path[-1])
+            if self.peek()[1] == "{" and not nostruct and path[-1][:1].isupper():
+                self.next()
+                fields, base = [], None
+                while not self.accept("}"):
+                    if self.accept(".."):
+                        base = self.expr()
+                        continue
+                    fname = self.next()[1]
+                    if self.accept(":"):
+                        fe = self.expr()
+                    else:
+                        fe = ("path", [fname], [])
+                    fields.append((fname, fe))
+                    self.accept(",")
+                return ("struct", path, fields, base)
+            return ("path", path, gens)
+        return P.primary(self, nostruct)
+
 # ------------------------------------------------------------------ locating items in source
 
 def read(rel):
@@ -636,6 +972,1746 @@ def const_value(src, name, rel):
         raise ExtractError("const %s in %s is not a literal: %s" % (name, rel, v))
     return int(v)
 
+
+
+# ================================================================== v2: typed translator
+#
+# Types of the translated fragment (strings / tuples):
+#   "Int" (every Rust integer type, UBig, IBig), "Bool", "Sign", "Ordering", "Rounding", "Unit",
+#   "E" (an f32 estimate bound: abstract, compared through the kernel record),
+#   struct names of STRUCTS ("FRepr", "QRepr", "FBig", "FCtx"),
+#   ("tuple", (t…)), ("option", t), ("approx", t) = Approximation<t, Rounding>.
+# Control flow: a `return` / panic below the top level turns the enclosing block expression into a
+# `Sum normal final`; a block that assigns outer variables yields the tuple of their new values
+# (state passing).  Where exactly one path of a statement falls through, the rest of the function
+# is placed at that path instead (no sum needed).
+
+STRUCTS = {
+    "FRepr": [("significand", "Int"), ("exponent", "Int")],
+    "QRepr": [("numerator", "Int"), ("denominator", "Int")],
+    "FCtx": [("precision", "Int")],
+    "FBig": [("repr", "FRepr"), ("context", "FCtx")],
+}
+LEAN_TY = {"Flow": "GluePrelude.Flow", "Int": "Int", "Bool": "Bool", "Sign": "Sign", "Ordering": "Ordering", "Rounding": "Rounding",
+           "Unit": "Unit", "E": "E", "FRepr": "GluePrelude.FRepr", "QRepr": "GluePrelude.QRepr",
+           "FCtx": "GluePrelude.FCtx", "FBig": "GluePrelude.FBig", "Panic": "GluePrelude.Panic"}
+
+
+def ty_lean(t):
+    if isinstance(t, str):
+        if t not in LEAN_TY:
+            raise ExtractError("no Lean type for %r" % (t,))
+        return LEAN_TY[t]
+    if t[0] == "tuple":
+        return "(" + " × ".join(ty_lean(x) for x in t[1]) + ")"
+    if t[0] == "option":
+        return "(Option %s)" % ty_lean(t[1])
+    if t[0] == "approx":
+        return "(GluePrelude.Approx %s)" % ty_lean(t[1])
+    if t[0] == "except":
+        return "(Except GluePrelude.Panic %s)" % ty_lean(t[1])
+    raise ExtractError("no Lean type for %r" % (t,))
+
+
+INT_TYPES = {"u8", "u16", "u32", "u64", "u128", "usize", "i8", "i16", "i32", "i64", "i128", "isize",
+             "Word", "DoubleWord", "UBig", "IBig"}
+
+
+def rust_type(text, tmap):
+    """map the text of a Rust type (as written in a signature / cast / let) to a translator type"""
+    toks = []
+    for t in tokenize(text):
+        if t[1] == ">>":
+            toks += [">", ">"]
+        elif t[1] == ">>=":
+            toks += [">", ">", "="]
+        else:
+            toks.append(t[1])
+
+    def parse(i):
+        while i < len(toks) and (toks[i] in ("&", "mut", "&&") or toks[i] == "'"):
+            if toks[i] == "'":
+                i += 2
+            else:
+                i += 1
+        if i >= len(toks):
+            raise ExtractError("empty type in %r" % text)
+        t = toks[i]
+        if t == "(":
+            i += 1
+            items = []
+            while toks[i] != ")":
+                x, i = parse(i)
+                items.append(x)
+                if toks[i] == ",":
+                    i += 1
+            i += 1
+            if not items:
+                return "Unit", i
+            return (items[0] if len(items) == 1 else ("tuple", tuple(items))), i
+        # path type
+        name = t
+        i += 1
+        while i < len(toks) and toks[i] == "::":
+            name = toks[i + 1]
+            i += 2
+        args = []
+        if i < len(toks) and toks[i] == "<":
+            i += 1
+            depth = 1
+            while depth:
+                if toks[i] in ("<",):
+                    depth += 1; i += 1
+                elif toks[i] == ">":
+                    depth -= 1; i += 1
+                elif toks[i] == ">>":
+                    depth -= 2; i += 1
+                elif toks[i] == "," and depth == 1:
+                    i += 1
+                elif depth == 1 and (toks[i][0].isalpha() or toks[i] in ("(", "&")) and toks[i] not in ("const",):
+                    if toks[i] == "'" :
+                        i += 2
+                        continue
+                    try:
+                        x, i = parse(i)
+                        args.append(x)
+                    except ExtractError:
+                        i += 1           # a const / mode parameter (`B`, `R`): not a value type
+                else:
+                    i += 1
+        if name in INT_TYPES:
+            return "Int", i
+        if name == "Output" and i >= 3 and toks[i - 3] == "Self" and "Self" in tmap:
+            return tmap["Self"], i
+        if name == "bool":
+            return "Bool", i
+        if name in ("Sign", "Ordering", "Rounding"):
+            return name, i
+        if name == "f32":
+            return "E", i
+        if name == "Option":
+            return ("option", args[0]), i
+        if name in ("Rounded", "Approximation"):
+            return ("approx", args[0]), i
+        if name in tmap:
+            return tmap[name], i
+        raise ExtractError("type %s is not in the translator's type map" % name)
+
+    # generic single-letter parameters like R, B are never the whole type here
+    t, i = parse(0)
+    return t
+
+
+def proj(e, i, n):
+    """i-th component of an n-tuple expression (Lean right-nested pairs)"""
+    if n == 1:
+        return e
+    s = e + ".2" * i
+    return s + ".1" if i < n - 1 else s
+
+
+class Ctx:
+    """how a statement list finishes: `normal` (falls off the end with a value) and `final`
+    (the function's result, already wrapped)"""
+    def __init__(self, normal, final, kind):
+        self.normal, self.final, self.kind = normal, final, kind
+        self.vtypes = []
+
+
+CT2 = {"Positive": ("Sign.Positive", "Sign"), "Negative": ("Sign.Negative", "Sign"),
+       "Less": ("Ordering.lt", "Ordering"), "Equal": ("Ordering.eq", "Ordering"), "Greater": ("Ordering.gt", "Ordering"),
+       "NoOp": ("Rounding.NoOp", "Rounding"), "AddOne": ("Rounding.AddOne", "Rounding"),
+       "SubOne": ("Rounding.SubOne", "Rounding")}
+PAT_CT = {"Positive": ".Positive", "Negative": ".Negative", "Less": ".lt", "Equal": ".eq", "Greater": ".gt",
+          "NoOp": ".NoOp", "AddOne": ".AddOne", "SubOne": ".SubOne", "true": "true", "false": "false",
+          "None": "none"}
+
+# (receiver type, method) -> (template over {0} = receiver, {1}… = arguments, result type)
+METHODS2 = {
+    ("Int", "sign"): ("(GluePrelude.sign {0})", "Sign"),
+    ("Int", "signum"): ("(GluePrelude.signum {0})", "Int"),
+    ("Int", "is_zero"): ("(GluePrelude.is_zero {0})", "Bool"),
+    ("Int", "is_one"): ("(GluePrelude.is_one {0})", "Bool"),
+    ("Int", "cmp"): ("(GluePrelude.cmp {0} {1})", "Ordering"),
+    ("Int", "abs_cmp"): ("(GluePrelude.abs_cmp {0} {1})", "Ordering"),
+    ("Int", "abs_eq"): ("(GluePrelude.abs_eq {0} {1})", "Bool"),
+    ("Int", "eq"): ("(GluePrelude.eq_ {0} {1})", "Bool"),
+    ("Int", "clone"): ("{0}", "Int"),
+    ("Int", "into"): ("{0}", "Int"),
+    ("Int", "min"): ("(GluePrelude.min {0} {1})", "Int"),
+    ("Int", "max"): ("(GluePrelude.max {0} {1})", "Int"),
+    ("Int", "abs_diff"): ("(GluePrelude.abs_diff {0} {1})", "Int"),
+    ("Int", "saturating_sub"): ("(GluePrelude.saturating_sub {0} {1})", "Int"),
+    ("Int", "unsigned_abs"): ("(GluePrelude.unsigned_abs {0})", "Int"),
+    ("Int", "bit_len"): ("(GluePrelude.bit_len {0})", "Int"),
+    ("Int", "are_low_bits_nonzero"): ("(GluePrelude.are_low_bits_nonzero {0} {1})", "Bool"),
+    ("Int", "as_ref"): ("{0}", "Int"),
+    ("Int", "into_sign_repr"): ("(GluePrelude.as_sign_repr {0})", ("tuple", ("Sign", "Int"))),
+    ("Int", "as_sign_repr"): ("(GluePrelude.as_sign_repr {0})", ("tuple", ("Sign", "Int"))),
+    ("Int", "into_parts"): ("(GluePrelude.as_sign_repr {0})", ("tuple", ("Sign", "Int"))),
+    ("Int", "is_power_of_two"): ("(GluePrelude.is_power_of_two {0})", "Bool"),
+    ("Int", "trailing_zeros"): ("(GluePrelude.trailing_zeros {0})", "Int"),
+    ("Int", "pow"): ("(GluePrelude.pow {0} {1})", "Int"),
+    ("Ordering", "reverse"): ("(GluePrelude.reverse {0})", "Ordering"),
+    ("Ordering", "then"): ("(GluePrelude.then_ {0} {1})", "Ordering"),
+    ("Sign", "clone"): ("{0}", "Sign"),
+    ("FRepr", "clone"): ("{0}", "FRepr"),
+    ("QRepr", "clone"): ("{0}", "QRepr"),
+    ("FBig", "clone"): ("{0}", "FBig"),
+    ("FCtx", "clone"): ("{0}", "FCtx"),
+    ("FRepr", "significand"): ("{0}.significand", "Int"),
+    ("FRepr", "exponent"): ("{0}.exponent", "Int"),
+    ("FBig", "repr"): ("{0}.repr", "FRepr"),
+}
+
+NEG_CMP = {"<": ">=", "<=": ">", ">": "<=", ">=": "<", "==": "!=", "!=": "=="}
+BINOPS = {"+": "add_", "-": "sub_", "*": "mul_", "/": "div_", "%": "rem_", "==": "eq_", "!=": "ne_",
+          "<": "lt_", "<=": "le_", ">": "gt_", ">=": "ge_"}
+
+
+class Area:
+    """one generated file: its vocabulary and the source items it reads"""
+    def __init__(self, name, doc, tmap, kernel=None, uses=(), methods=None, funcs=None, consts=None,
+                 inplace=None, variables=""):
+        self.name, self.doc, self.tmap, self.kernel, self.uses = name, doc, tmap, kernel, list(uses)
+        self.methods = dict(methods or {})
+        self.funcs = dict(funcs or {})
+        self.consts = dict(consts or {})
+        self.inplace = dict(inplace or {})
+        self.variables = variables
+        self.targets = []
+
+
+class GenSym:
+    """a generated definition, callable from later ones"""
+    def __init__(self, lean, params, ret, uses_k, panics, cgen):
+        self.lean, self.params, self.ret, self.uses_k, self.panics, self.cgen = lean, params, ret, uses_k, panics, cgen
+
+
+class Tr:
+    def __init__(self, area, syms, where, ret_ty, panic_mode, self_ty=None):
+        self.a, self.syms, self.where = area, syms, where
+        self.ret_ty, self.panic_mode, self.self_ty = ret_ty, panic_mode, self_ty
+        self.uses_k = False
+        self.ntmp = 0
+        self.guard_mode = False
+        self.guard_cut = False
+
+    # ---------------------------------------------------------------- helpers
+    def err(self, msg):
+        raise ExtractError("%s: %s" % (self.where, msg))
+
+    def tmp(self):
+        self.ntmp += 1
+        return "t_%d" % self.ntmp
+
+    def wrap_ok(self, v):
+        return "(Except.ok %s)" % v if self.panic_mode else v
+
+    def final_ty(self):
+        return ("except", self.ret_ty) if self.panic_mode else self.ret_ty
+
+    def k(self, s):
+        if "k." in s:
+            if not self.a.kernel:
+                self.err("kernel function used in an area without a kernel record")
+            self.uses_k = True
+        return s
+
+    def lookup_method(self, ty, name):
+        key = (ty if isinstance(ty, str) else ty[0], name)
+        if key in self.a.methods:
+            return self.a.methods[key]
+        if key in self.syms:
+            return self.syms[key]
+        if key in METHODS2:
+            return METHODS2[key]
+        return None
+
+    # ---------------------------------------------------------------- static analysis of a node
+    def is_blocklike(self, e):
+        return e[0] in ("if", "iflet", "match", "block")
+
+    def diverges_call(self, e):
+        """`panic_xxx()` — a call of a function that never returns"""
+        if e[0] == "call" and e[1][0] == "path":
+            name = e[1][1][-1]
+            spec = self.a.funcs.get(name)
+            return spec is not None and spec[0] == "PANIC"
+        return False
+
+    def panicking_name(self, name):
+        """is there a generated function of this name whose result is `Except Panic _`"""
+        for (recv, n), sym in self.syms.items():
+            if isinstance(sym, GenSym) and sym.panics and (n == name or n.endswith("::" + name)):
+                return True
+        return False
+
+    def hoist(self, e):
+        """pull calls of panicking functions and effectful block expressions out of operand positions:
+        returns (let-statements to run first, rewritten expression)"""
+        pre = []
+
+        def fresh(node):
+            self.ntmp += 1
+            n = "hv_%d" % self.ntmp
+            pre.append(("let", ("pvar", n), node, None))
+            return ("path", [n], [])
+
+        def operand(x):
+            # x sits in an operand position
+            if self.is_blocklike(x):
+                rets, asg = self.effects(x)
+                if rets or asg:
+                    return fresh(x)
+                return x
+            y = inner(x)
+            if y[0] == "call" and y[1][0] == "path" and self.panicking_name(y[1][1][-1]):
+                return fresh(y)
+            if y[0] == "mcall" and self.panicking_name(y[2]):
+                return fresh(y)
+            return y
+
+        def inner(x):
+            k = x[0]
+            if k == "call":
+                return ("call", x[1], [a if a[0] == "refmut" else operand(a) for a in x[2]])
+            if k == "mcall":
+                return ("mcall", operand(x[1]), x[2], [operand(a) for a in x[3]])
+            if k == "bin":
+                if x[1] in ("&&", "||"):
+                    return ("bin", x[1], operand(x[2]), x[3])      # the right operand is lazy
+                return ("bin", x[1], operand(x[2]), operand(x[3]))
+            if k == "un":
+                return ("un", x[1], operand(x[2]))
+            if k == "cast":
+                return ("cast", operand(x[1]), x[2])
+            if k == "field":
+                return ("field", operand(x[1]), x[2])
+            if k == "tuple":
+                return ("tuple", [operand(a) for a in x[1]])
+            if k == "struct":
+                return ("struct", x[1], [(f, operand(fe)) for f, fe in x[2]], x[3])
+            return x
+
+        if self.is_blocklike(e):
+            return [], e
+        return pre, inner(e) if True else e
+
+    def stmt_nodes(self, b):
+        return b[1], b[2]
+
+    def effects(self, e, declared=None):
+        """(may leave the function early, ordered list of outer variables assigned) inside node e"""
+        rets = [False]
+        assigned = []
+
+        def root(pl):
+            while pl[0] == "field":
+                pl = pl[1]
+            return pl[1][0]
+
+        def walk_block(b, decl):
+            decl = set(decl)
+            stmts, tail = b[1], b[2]
+            for s in stmts:
+                k = s[0]
+                if k == "let":
+                    walk(s[2], decl)
+                    for n in self.pat_names(s[1]):
+                        decl.add(n)
+                elif k == "letdecl":
+                    decl.add(s[1])
+                elif k == "return":
+                    rets[0] = True
+                    walk(s[1], decl)
+                elif k in ("assignp", "assignop"):
+                    r = root(s[1] if k == "assignp" else s[2])
+                    if r not in decl and r not in assigned:
+                        assigned.append(r)
+                    walk(s[2] if k == "assignp" else s[3], decl)
+                elif k == "expr":
+                    walk(s[1], decl)
+            if tail is not None:
+                walk(tail, decl)
+
+        def walk(x, decl):
+            k = x[0]
+            if k == "block":
+                walk_block(x, decl)
+            elif k == "if":
+                walk(x[1], decl); walk(x[2], decl)
+                if x[3] is not None:
+                    walk(x[3], decl)
+            elif k == "iflet":
+                walk(x[2], decl)
+                d2 = set(decl) | set(self.pat_names(x[1]))
+                walk(x[3], d2)
+                if x[4] is not None:
+                    walk(x[4], decl)
+            elif k == "match":
+                walk(x[1], decl)
+                for pat, body in x[2]:
+                    walk(body, set(decl) | set(self.pat_names(pat)))
+            elif k == "ret":
+                rets[0] = True
+                walk(x[1], decl)
+            elif k == "call":
+                if self.diverges_call(x) or (x[1][0] == "path" and self.panicking_name(x[1][1][-1])):
+                    rets[0] = True
+                if x[1][0] == "path" and x[1][1][-1] in self.a.inplace:
+                    for a in x[2]:
+                        if a[0] == "refmut":
+                            r = root(a[1])
+                            if r not in decl and r not in assigned:
+                                assigned.append(r)
+                for a in x[2]:
+                    walk(a, decl)
+            elif k == "mcall":
+                if self.panicking_name(x[2]):
+                    rets[0] = True
+                walk(x[1], decl)
+                for a in x[3]:
+                    walk(a, decl)
+            elif k in ("un", "refmut", "cast", "field"):
+                walk(x[1] if k != "un" else x[2], decl)
+            elif k == "bin":
+                walk(x[2], decl); walk(x[3], decl)
+            elif k == "tuple":
+                for a in x[1]:
+                    walk(a, decl)
+            elif k == "struct":
+                for _, fe in x[2]:
+                    walk(fe, decl)
+            elif k == "closure":
+                walk(x[2], decl)
+
+        walk(e, declared or set())
+        return rets[0], assigned
+
+    def pat_names(self, p):
+        k = p[0]
+        if k == "pvar":
+            return [p[1]]
+        if k in ("ptuple",):
+            return [n for x in p[1] for n in self.pat_names(x)]
+        if k == "pctor":
+            return [n for x in p[2] for n in self.pat_names(x)]
+        if k == "por":
+            return [n for x in p[1] for n in self.pat_names(x)]
+        return []
+
+    def exits(self, e):
+        """number of textual places where control falls out of the end of node e"""
+        k = e[0]
+        if k == "block":
+            n = 1
+            for s in e[1]:
+                if s[0] == "return":
+                    return 0
+                if s[0] == "expr":
+                    n *= self.exits(s[1])
+                elif s[0] == "let" and self.is_blocklike(s[2]):
+                    n *= max(self.exits(s[2]), 0)
+                if n == 0:
+                    return 0
+            if e[2] is not None:
+                n *= self.exits(e[2])
+            return n
+        if k == "if":
+            return self.exits(e[2]) + (self.exits(e[3]) if e[3] is not None else 1)
+        if k == "iflet":
+            return self.exits(e[3]) + (self.exits(e[4]) if e[4] is not None else 1)
+        if k == "match":
+            return sum(self.exits(b) for _, b in e[2])
+        if self.diverges_call(e) or k == "ret":
+            return 0
+        return 1
+
+    def declared_in(self, e):
+        out = set()
+
+        def walk(x):
+            if not isinstance(x, tuple):
+                return
+            if x and x[0] == "let":
+                out.update(self.pat_names(x[1]))
+            if x and x[0] == "letdecl":
+                out.add(x[1])
+            if x and x[0] == "iflet":
+                out.update(self.pat_names(x[1]))
+            if x and x[0] == "match":
+                for pat, _ in x[2]:
+                    out.update(self.pat_names(pat))
+            for y in x:
+                if isinstance(y, tuple):
+                    walk(y)
+                elif isinstance(y, list):
+                    for z in y:
+                        if isinstance(z, tuple):
+                            walk(z)
+        walk(e)
+        return out
+
+    # ---------------------------------------------------------------- patterns
+    def pat(self, p, ty, env):
+        """Lean match pattern for p against a value of type ty; binds names in env"""
+        k = p[0]
+        if k == "pwild":
+            return "_"
+        if k == "pvar":
+            env[p[1]] = ty
+            return ident(p[1])
+        if k == "plit":
+            if p[1] in ("true", "false"):
+                if ty != "Bool":
+                    self.err("boolean pattern against %r" % (ty,))
+                return p[1]
+            if ty != "Int":
+                self.err("integer pattern against %r" % (ty,))
+            return re.sub(r"(?<=\d)(?:[iu](?:8|16|32|64|128|size))$", "", p[1].replace("_", ""))
+        if k == "pctor":
+            name = p[1][-1]
+            if name == "Some":
+                if not (isinstance(ty, tuple) and ty[0] == "option") or len(p[2]) != 1:
+                    self.err("`Some` pattern against %r" % (ty,))
+                return "(some %s)" % self.pat(p[2][0], ty[1], env)
+            if name == "None":
+                if not (isinstance(ty, tuple) and ty[0] == "option"):
+                    self.err("`None` pattern against %r" % (ty,))
+                return "none"
+            if name in ("Exact", "Inexact") and isinstance(ty, tuple) and ty[0] == "approx":
+                if name == "Exact" and len(p[2]) == 1:
+                    return "(GluePrelude.Approx.Exact %s)" % self.pat(p[2][0], ty[1], env)
+                if name == "Inexact" and len(p[2]) == 2:
+                    return "(GluePrelude.Approx.Inexact %s %s)" % (self.pat(p[2][0], ty[1], env), self.pat(p[2][1], "Rounding", env))
+            if name in CT2 and not p[2]:
+                if CT2[name][1] != ty:
+                    self.err("pattern %s against a value of type %r" % (name, ty))
+                return PAT_CT[name]
+            self.err("unknown constructor pattern %s" % "::".join(p[1]))
+        if k == "ptuple":
+            if not (isinstance(ty, tuple) and ty[0] == "tuple" and len(ty[1]) == len(p[1])):
+                self.err("tuple pattern against %r" % (ty,))
+            return "(" + ", ".join(self.pat(x, t, env) for x, t in zip(p[1], ty[1])) + ")"
+        self.err("pattern kind %s" % k)
+
+    CTOR_ORDER = {"Positive": 0, "Negative": 1, "Less": 0, "Equal": 1, "Greater": 2, "true": 0, "false": 1,
+                  "NoOp": 0, "AddOne": 1, "SubOne": 2, "None": 0, "Some": 1}
+
+    def closed_pat(self, p):
+        if p[0] == "plit":
+            return True
+        if p[0] == "pctor":
+            return all(self.closed_pat(x) for x in p[2])
+        if p[0] == "ptuple":
+            return all(self.closed_pat(x) for x in p[1])
+        return False
+
+    def pat_key(self, p):
+        if p[0] == "plit":
+            return (self.CTOR_ORDER.get(p[1], 50), p[1])
+        if p[0] == "pctor":
+            return (self.CTOR_ORDER.get(p[1][-1], 50), p[1][-1], tuple(self.pat_key(x) for x in p[2]))
+        if p[0] == "ptuple":
+            return tuple(self.pat_key(x) for x in p[1])
+        return (99,)
+
+    def bind(self, p, v, ty, env, pad):
+        """`let`-lines binding pattern p to the value v (a Lean term) of type ty"""
+        k = p[0]
+        if k == "pvar":
+            env[p[1]] = ty
+            return "let %s := %s;\n%s" % (ident(p[1]), v, pad)
+        if k == "pwild":
+            return ""
+        if k == "ptuple":
+            if not (isinstance(ty, tuple) and ty[0] == "tuple" and len(ty[1]) == len(p[1])):
+                self.err("tuple pattern against a value of type %r" % (ty,))
+            out = ""
+            if not re.fullmatch(r"[A-Za-z_][A-Za-z0-9_.']*", v):
+                t = self.tmp()
+                out += "let %s := %s;\n%s" % (t, v, pad)
+                v = t
+            n = len(p[1])
+            for i, (x, t) in enumerate(zip(p[1], ty[1])):
+                out += self.bind(x, proj(v, i, n), t, env, pad)
+            return out
+        self.err("`let` pattern kind %s" % k)
+
+    # ---------------------------------------------------------------- expressions (no early exit inside)
+    def lit(self, s):
+        v = re.sub(r"(?<=\d)(?:[iu](?:8|16|32|64|128|size))$", "", s.replace("_", ""))
+        if not re.fullmatch(r"\d+|0x[0-9a-fA-F]+", v):
+            self.err("literal %s is not an integer" % s)
+        return "(%s : Int)" % v
+
+    def expr(self, x, env, ind=0):
+        k = x[0]
+        if k == "num":
+            return self.lit(x[1]), "Int"
+        if k == "unit":
+            return "()", "Unit"
+        if k == "path":
+            p = x[1]
+            if len(p) == 1:
+                n = p[0]
+                if n in ("true", "false"):
+                    return n, "Bool"
+                if n in env:
+                    if env[n] is None or (isinstance(env[n], tuple) and env[n][0] == "uninit"):
+                        self.err("variable %s is read before it is assigned" % n)
+                    return ident(n), env[n]
+                if n == "None":
+                    return "none", ("option", "?")
+                if n in CT2:
+                    return CT2[n]
+                if (n,) in self.a.consts:
+                    v, t = self.a.consts[(n,)]
+                    return self.k(v), t
+                if ("const", n) in self.syms:
+                    return self.syms[("const", n)]
+                self.err("unknown name %s" % n)
+            if p[0] == "Self" and self.self_ty in SELF_RUST:
+                p = [SELF_RUST[self.self_ty]] + list(p[1:])
+            key = tuple(p[-2:])
+            if key in self.a.consts:
+                return self.a.consts[key]
+            if ("const", "::".join(key)) in self.syms:
+                return self.syms[("const", "::".join(key))]
+            if p[-1] in CT2 and p[-2] in ("Sign", "Ordering", "Rounding"):
+                return CT2[p[-1]]
+            self.err("path %s is not in the translator whitelist" % "::".join(p))
+        if k == "tuple":
+            items = [self.expr(i, env, ind) for i in x[1]]
+            return "(" + ", ".join(i[0] for i in items) + ")", ("tuple", tuple(i[1] for i in items))
+        if k == "refmut":
+            self.err("`&mut` outside an in-place kernel call")
+        if k == "cast":
+            v, t = self.expr(x[1], env, ind)
+            if x[2] in INT_TYPES:
+                if t == "Int":
+                    return v, "Int"
+                if t == "Bool":
+                    return "(GluePrelude.b2i %s)" % v, "Int"
+                if t == "E":
+                    return self.k("(k.e_to_int %s)" % v), "Int"
+            self.err("cast of %r to %s not supported" % (t, x[2]))
+        if k == "un":
+            if x[1] == "!" and x[2][0] == "un" and x[2][1] == "!":
+                return self.expr(x[2][2], env, ind)                       # !!c
+            if x[1] == "!" and x[2][0] == "bin" and x[2][1] in NEG_CMP:
+                l, r = self.expr(x[2][2], env, ind), self.expr(x[2][3], env, ind)
+                if l[1] != "E":                                           # f32: !(a < b) is not (a >= b) (NaN)
+                    return self.binop(NEG_CMP[x[2][1]], l, r)
+            v, t = self.expr(x[2], env, ind)
+            if x[1] == "!" and t == "Bool":
+                return "(!%s)" % v, "Bool"
+            if x[1] == "-" and t == "Int":
+                return "(GluePrelude.neg_ %s)" % v, "Int"
+            if x[1] == "-" and t == "Sign":
+                return "(GluePrelude.neg_ %s)" % v, "Sign"
+            m = self.lookup_method(t, "neg") if x[1] == "-" else None
+            if isinstance(m, GenSym) and not m.panics:
+                return self.gen_call(m, [] if not m.cgen else None, [(v, t)], "neg"), m.ret
+            if m:
+                return self.apply(m, [v], "neg")
+            self.err("unary %s on %r" % (x[1], t))
+        if k == "bin":
+            return self.binop(x[1], self.expr(x[2], env, ind), self.expr(x[3], env, ind))
+        if k == "field":
+            v, t = self.expr(x[1], env, ind)
+            if isinstance(t, str) and t in STRUCTS:
+                for f, ft in STRUCTS[t]:
+                    if f == x[2]:
+                        return "%s.%s" % (v, f), ft
+                if x[2] == "0" and t == "QRepr":     # RBig(Repr) / Relaxed(Repr) newtype
+                    return v, t
+                self.err("struct %s has no field %s" % (t, x[2]))
+            if isinstance(t, tuple) and t[0] == "tuple" and x[2].isdigit() and int(x[2]) < len(t[1]):
+                if not re.fullmatch(r"[A-Za-z_][A-Za-z0-9_.']*", v):
+                    v = "(%s)" % v
+                return proj(v, int(x[2]), len(t[1])), t[1][int(x[2])]
+            self.err("field .%s of a value of type %r" % (x[2], t))
+        if k == "mcall":
+            return self.mcall(x, env, ind)
+        if k == "call":
+            return self.call(x, env, ind)
+        if k == "struct":
+            name = x[1][-1]
+            t = self.self_ty if name == "Self" else self.a.tmap.get(name)
+            if t not in STRUCTS or x[3] is not None:
+                self.err("struct literal %s not supported" % name)
+            given = dict(x[2])
+            vals = []
+            for f, ft in STRUCTS[t]:
+                if f not in given:
+                    self.err("struct literal %s lacks field %s" % (name, f))
+                v, vt = self.expr(given.pop(f), env, ind)
+                self.same(vt, ft, "field %s" % f)
+                vals.append("%s := %s" % (f, v))
+            given.pop("_marker", None)
+            if given:
+                self.err("struct literal %s has unknown fields %s" % (name, sorted(given)))
+            return "({ %s } : %s)" % (", ".join(vals), ty_lean(t)), t
+        if self.is_blocklike(x):
+            rets, asg = self.effects(x)
+            asg = [a for a in asg if a in env]
+            if rets or asg:
+                self.err("early exit or assignment inside an expression that is used as an operand")
+            c = Ctx(lambda v, t, e2, i2: v, None, "pure")
+            c.normal = self.recording(c, lambda v, t, e2, i2: v)
+            s = self.blocklike(x, dict(env), c, ind + 1)
+            return "(%s)" % s, self.vtype(c)
+        if k == "macro":
+            self.err("macro %s! is outside the decision-logic subset" % x[1])
+        if k == "closure":
+            self.err("closure outside a whitelisted combinator")
+        self.err("expression kind %s" % k)
+
+    def recording(self, c, f):
+        def g(v, t, env, ind):
+            c.vtypes.append(t)
+            return f(v, t, env, ind)
+        return g
+
+    def vtype(self, c):
+        ts = [t for t in c.vtypes if t is not None and t != ("option", "?")]
+        if not ts:
+            if c.vtypes:
+                return c.vtypes[0]
+            return None
+        for t in ts[1:]:
+            self.same(t, ts[0], "branches of a block expression")
+        return ts[0]
+
+    def same(self, a, b, what):
+        if a == b:
+            return
+        if isinstance(a, tuple) and isinstance(b, tuple) and a[0] == b[0] == "option" and "?" in (a[1], b[1]):
+            return
+        self.err("type mismatch in %s: %r vs %r" % (what, a, b))
+
+    def binop(self, op, l, r):
+        # canonical text: `a > b` is written `b < a`, `a >= b` is `b <= a`; the operands of a commutative
+        # operator on integers (`+`, `*`, `==`, `!=`) are put in a fixed order, so that a behaviour-preserving
+        # rewrite of the source (commuted operands, flipped comparison) regenerates the same definition
+        if op in (">", ">="):
+            op, l, r = {">": "<", ">=": "<="}[op], r, l
+        if op in ("+", "*") and l[1] == r[1] == "Int":
+            items = sorted(self.ac_items(op, l[0]) + self.ac_items(op, r[0]))
+            acc = items[0]
+            for it in items[1:]:
+                acc = "(GluePrelude.%s %s %s)" % (BINOPS[op], acc, it)
+            return acc, "Int"
+        if op in ("==", "!=") and l[1] == r[1]:
+            key = lambda x: (bool(re.fullmatch(r"\(-?\d+ : Int\)|true|false|[A-Z][A-Za-z]*\.[A-Za-z.]+", x[0])), x[0])
+            if key(r) < key(l):                 # constants go last: `x == 0`, never `0 == x`
+                l, r = r, l
+        (a, ta), (b, tb) = l, r
+        if op in ("&&", "||"):
+            if ta == tb == "Bool":
+                return "(%s %s %s)" % (a, op, b), "Bool"
+            self.err("%s on %r, %r" % (op, ta, tb))
+        if op == "^" and ta == tb == "Bool":
+            return "(GluePrelude.bxor %s %s)" % (a, b), "Bool"
+        if op in ("+", "-", "*", "/", "%"):
+            if ta == tb == "Int":
+                return "(GluePrelude.%s %s %s)" % (BINOPS[op], a, b), "Int"
+            if op == "*":
+                if (ta, tb) == ("Sign", "Ordering"):
+                    return "(GluePrelude.sign_mul_ord %s %s)" % (a, b), "Ordering"
+                if (ta, tb) == ("Sign", "Int"):
+                    return "(GluePrelude.sign_mul_int %s %s)" % (a, b), "Int"
+                if (ta, tb) == ("Int", "Sign"):
+                    return "(GluePrelude.int_mul_sign %s %s)" % (a, b), "Int"
+                if (ta, tb) == ("Sign", "Sign"):
+                    return "(GluePrelude.mul_ %s %s)" % (a, b), "Sign"
+                if (ta, tb) == ("E", "E"):
+                    return self.k("(k.e_mul %s %s)" % (a, b)), "E"
+            if op == "/" and (ta, tb) == ("E", "E"):
+                return self.k("(k.e_div %s %s)" % (a, b)), "E"
+            if op == "+" and (ta, tb) == ("Int", "Rounding"):
+                return "(GluePrelude.int_add_rounding %s %s)" % (a, b), "Int"
+            self.err("operator %s on %r, %r" % (op, ta, tb))
+        if op in ("<<", ">>") and ta == tb == "Int":
+            return "(GluePrelude.%s %s %s)" % ("shl_" if op == "<<" else "shr_", a, b), "Int"
+        if op in ("==", "!=", "<", "<=", ">", ">="):
+            if ta != tb and not (isinstance(ta, tuple) and isinstance(tb, tuple) and ta[0] == tb[0] == "option"):
+                self.err("comparison %s between %r and %r" % (op, ta, tb))
+            if ta == "E":
+                if op not in ("<", ">"):
+                    self.err("comparison %s on f32 estimates is not in the translator whitelist (only < and >)" % op)
+                return self.k("(k.e_%s %s %s)" % (BINOPS[op].rstrip("_"), a, b)), "Bool"
+            if op in ("==", "!="):
+                if isinstance(ta, str) and ta in ("Int", "Bool", "Sign", "Ordering", "Rounding", "FRepr", "QRepr"):
+                    return "(GluePrelude.%s %s %s)" % (BINOPS[op], a, b), "Bool"
+                self.err("equality on %r" % (ta,))
+            if ta in ("Int", "Sign"):
+                return "(GluePrelude.%s %s %s)" % (BINOPS[op], a, b), "Bool"
+            cmpsym = self.syms.get((ta, "cmp")) if isinstance(ta, str) else None
+            if isinstance(cmpsym, GenSym) and not cmpsym.panics:       # PartialOrd through the regenerated `Ord::cmp`
+                c = self.gen_call(cmpsym, [] if not cmpsym.cgen else None, [(a, ta), (b, tb)], "cmp")
+                return "(GluePrelude.%s %s)" % ({"<": "is_lt", "<=": "is_le"}[op], c), "Bool"
+            self.err("ordering comparison on %r" % (ta,))
+        self.err("operator %s not supported" % op)
+
+    def ac_items(self, op, text):
+        """operands of the (already canonical) chain `text` of the associative-commutative operator op"""
+        head = "(GluePrelude.%s " % BINOPS[op]
+        if not (text.startswith(head) and text.endswith(")")):
+            return [text]
+        body = text[len(head):-1]
+        # split the two arguments at depth 0
+        depth, i = 0, 0
+        while i < len(body):
+            c = body[i]
+            if c == "(":
+                depth += 1
+            elif c == ")":
+                depth -= 1
+            elif c == " " and depth == 0:
+                break
+            i += 1
+        if i >= len(body):
+            return [text]
+        return self.ac_items(op, body[:i]) + [body[i + 1:]]
+
+    def apply(self, spec, args, name):
+        """spec = (template, result type) or GenSym"""
+        if isinstance(spec, GenSym):
+            self.err("internal: GenSym applied through apply()")
+        tpl, rt = spec[0], spec[1]
+        need = len(set(re.findall(r"\{(\d+)(?::[^}]*)?\}", tpl)))
+        if need != len(args):
+            self.err("%s takes %d operand(s) in the whitelist, the source passes %d" % (name, need, len(args)))
+        return self.k(tpl.format(*args)), rt
+
+    def gen_call(self, sym, cgen_args, args, name):
+        """call of another generated definition (pure ones only here)"""
+        if len(args) != len(sym.params):
+            self.err("%s: %d arguments for %d parameters" % (name, len(args), len(sym.params)))
+        for (v, t), (pn, pt) in zip(args, sym.params):
+            self.same(t, pt, "argument %s of %s" % (pn, name))
+        lead = []
+        if sym.uses_k:
+            self.uses_k = True
+            lead.append("k")
+        if sym.cgen:
+            if cgen_args is None or len(cgen_args) != len(sym.cgen):
+                self.err("%s needs explicit const-generic arguments %s" % (name, [c[0] for c in sym.cgen]))
+            lead += cgen_args
+        return "(%s)" % " ".join([sym.lean] + lead + [a[0] for a in args])
+
+    def cgen_args(self, gens, sym, env):
+        """turbofish arguments → values for the callee's const generics (`B` is implicit in the kernel)"""
+        vals = [g for g in gens if g != "B"]
+        out = []
+        for g in vals:
+            if g in ("true", "false"):
+                out.append(g)
+            elif g in env and env[g] == "Bool":
+                out.append(ident(g))
+            else:
+                self.err("const-generic argument %s not supported" % g)
+        return out
+
+    def mcall(self, x, env, ind):
+        recv, name, args = x[1], x[2], x[3]
+        # `approx.map(|v| …)` / `.value()`
+        rv, rt = self.expr(recv, env, ind)
+        if isinstance(rt, tuple) and rt[0] == "approx":
+            if name == "value" and not args:
+                return "(GluePrelude.Approx.value %s)" % rv, rt[1]
+            if name == "map" and len(args) == 1 and args[0][0] == "closure" and len(args[0][1]) == 1:
+                e2 = dict(env)
+                e2[args[0][1][0]] = rt[1]
+                bv, bt = self.expr(args[0][2], e2, ind)
+                return "(GluePrelude.Approx.map (fun %s => %s) %s)" % (ident(args[0][1][0]), bv, rv), ("approx", bt)
+            self.err("method .%s() on an Approximation is not in the whitelist" % name)
+        spec = self.lookup_method(rt, name)
+        if spec is None:
+            self.err("method .%s() on a value of type %r is not in the translator whitelist" % (name, rt))
+        avs = [self.expr(a, env, ind) for a in args]
+        if isinstance(spec, GenSym):
+            if spec.panics:
+                self.err("call of the panicking function %s inside an expression" % name)
+            return self.gen_call(spec, [] if not spec.cgen else None, [(rv, rt)] + avs, name), spec.ret
+        return self.apply(spec, [rv] + [a[0] for a in avs], "." + name + "()")
+
+    def call(self, x, env, ind):
+        f, args = x[1], x[2]
+        if f[0] != "path":
+            self.err("call of a computed function")
+        p = f[1]
+        if p[0] == "Self" and self.self_ty in SELF_RUST:
+            p = [SELF_RUST[self.self_ty]] + list(p[1:])
+        gens = f[2] if len(f) > 2 else []
+        name = p[-1]
+        # constructors
+        if name == "Some" and len(args) == 1:
+            v, t = self.expr(args[0], env, ind)
+            return "(some %s)" % v, ("option", t)
+        if name in ("Exact", "Inexact") and (len(p) == 1 or p[-2] in ("Rounded", "Approximation")):
+            avs = [self.expr(a, env, ind) for a in args]
+            if name == "Exact" and len(avs) == 1:
+                return "(GluePrelude.Approx.Exact %s)" % avs[0][0], ("approx", avs[0][1])
+            if name == "Inexact" and len(avs) == 2:
+                self.same(avs[1][1], "Rounding", "Inexact flag")
+                return "(GluePrelude.Approx.Inexact %s %s)" % (avs[0][0], avs[1][0]), ("approx", avs[0][1])
+            self.err("constructor %s with %d arguments" % (name, len(avs)))
+        if name in ("UBig", "IBig") and len(p) == 1 and len(args) == 1:
+            v, t = self.expr(args[0], env, ind)
+            self.same(t, "Int", name + "(…)")
+            return v, "Int"
+        if name in ("RBig", "Relaxed") and len(p) == 1 and len(args) == 1:
+            v, t = self.expr(args[0], env, ind)
+            self.same(t, "QRepr", name + "(…)")
+            return v, "QRepr"
+        key2 = "::".join(p[-2:]) if len(p) >= 2 else None
+        spec = None
+        for key in (key2, name):
+            if key is None:
+                continue
+            if key in self.a.funcs:
+                spec = self.a.funcs[key]; break
+            if (None, key) in self.syms:
+                spec = self.syms[(None, key)]; break
+        if spec is None:
+            self.err("call of %s is not in the translator whitelist" % "::".join(p))
+        if not isinstance(spec, GenSym) and spec[0] == "PANIC":
+            self.err("diverging call %s() used as a value" % name)
+        avs = [self.expr(a, env, ind) for a in args]
+        if isinstance(spec, GenSym):
+            if spec.panics:
+                self.err("call of the panicking function %s inside an expression" % name)
+            return self.gen_call(spec, self.cgen_args(gens, spec, env), avs, name), spec.ret
+        tpl_types = spec[2] if len(spec) > 2 else None
+        if tpl_types is not None:
+            if len(tpl_types) != len(avs):
+                self.err("%s: %d arguments, whitelist says %d" % (name, len(avs), len(tpl_types)))
+            for (v, t), pt in zip(avs, tpl_types):
+                self.same(t, pt, "argument of %s" % name)
+        return self.apply(spec, [a[0] for a in avs], name)
+
+    # ---------------------------------------------------------------- statements
+    def pack(self, v, vt, M, env):
+        for m in M:
+            if m not in env or env[m] is None or (isinstance(env[m], tuple) and env[m][0] == "uninit"):
+                self.err("variable %s is not assigned on every path" % m)
+        items = ([] if vt == "Unit" or v is None else [v]) + [ident(m) for m in M]
+        if not items:
+            return "()"
+        return items[0] if len(items) == 1 else "(" + ", ".join(items) + ")"
+
+    def pack_ty(self, vt, M, env):
+        def clean(t):
+            return t[1] if isinstance(t, tuple) and t[0] == "uninit" else t
+        items = ([] if vt in ("Unit", None) else [vt]) + [clean(env[m]) for m in M]
+        if not items:
+            return "Unit"
+        return items[0] if len(items) == 1 else ("tuple", tuple(items))
+
+    def update(self, place, newv, env, ind):
+        """(root variable, Lean term of its new value) after `place := newv`"""
+        if place[0] == "path":
+            return place[1][0], newv
+        base = place[1]
+        bv, bt = self.place_expr(base, env, ind)
+        f = place[2]
+        if isinstance(bt, str) and bt in STRUCTS:
+            if f not in [n for n, _ in STRUCTS[bt]]:
+                self.err("struct %s has no field %s" % (bt, f))
+            return self.update(base, "{ %s with %s := %s }" % (bv, f, newv), env, ind)
+        if isinstance(bt, tuple) and bt[0] == "tuple" and f.isdigit():
+            n = len(bt[1])
+            items = [newv if i == int(f) else proj(bv, i, n) for i in range(n)]
+            return self.update(base, "(" + ", ".join(items) + ")", env, ind)
+        self.err("assignment to field .%s of a value of type %r" % (f, bt))
+
+    def place_expr(self, place, env, ind):
+        if place[0] == "path":
+            n = place[1][0]
+            t = env.get(n)
+            if isinstance(t, tuple) and t[0] == "uninit":
+                self.err("field of %s assigned before the variable is initialised" % n)
+        return self.expr(place, env, ind)
+
+    def place_type(self, place, env):
+        if place[0] == "path":
+            t = env.get(place[1][0])
+            if t is None:
+                self.err("assignment to unknown variable %s" % place[1][0])
+            return t[1] if isinstance(t, tuple) and t[0] == "uninit" else t
+        bt = self.place_type(place[1], env)
+        f = place[2]
+        if isinstance(bt, str) and bt in STRUCTS:
+            for n, ft in STRUCTS[bt]:
+                if n == f:
+                    return ft
+        if isinstance(bt, tuple) and bt[0] == "tuple" and f.isdigit() and int(f) < len(bt[1]):
+            return bt[1][int(f)]
+        self.err("assignment to field .%s of a value of type %r" % (f, bt))
+
+    def seq(self, stmts, tail, env, ctx, ind):
+        pad = "  " * ind
+        if not stmts:
+            if tail is None:
+                return ctx.normal(None, "Unit", env, ind)
+            if self.diverges_call(tail):
+                return ctx.final(self.panic_of(tail))
+            if tail[0] == "ret":
+                return self.seq([("return", tail[1])], None, env, ctx, ind)
+            if self.guard_mode and ctx.kind == "fn" and not self.is_blocklike(tail):
+                rets, _ = self.effects(tail)
+                if rets:
+                    self.err("the final expression can panic: not supported in a guard prologue")
+                return ctx.final("(Except.ok GluePrelude.Flow.returns)")
+            pre, tail2 = self.hoist(tail)
+            if pre:
+                return self.seq(pre, tail2, env, ctx, ind)
+            if (tail[0] == "call" and tail[1][0] == "path" and self.panicking_name(tail[1][1][-1])) or \
+                    (tail[0] == "mcall" and self.panicking_name(tail[2])):
+                self.ntmp += 1
+                n = "hv_%d" % self.ntmp
+                b = self.try_bind_call(tail, ("pvar", n), [], ("path", [n], []), env, ctx, ind)
+                if b is not None:
+                    return b
+            if self.is_blocklike(tail):
+                rets, asg = self.effects(tail)
+                asg = [a for a in asg if a in env]
+                if rets or asg:
+                    return self.blocklike(tail, env, ctx, ind)
+            v, t = self.expr(tail, env, ind)
+            return ctx.normal(v, t, env, ind)
+        s, rest = stmts[0], stmts[1:]
+        k = s[0]
+        if k in ("let", "return", "expr", "assignp", "assignop") and not getattr(self, "_hoisted", None) == id(s):
+            idx = {"let": 2, "return": 1, "expr": 1, "assignp": 2, "assignop": 3}[k]
+            pre, e2 = self.hoist(s[idx])
+            if pre:
+                s2 = list(s)
+                s2[idx] = e2
+                return self.seq(pre + [tuple(s2)] + rest, tail, env, ctx, ind)
+        if k == "letdecl":
+            ty = rust_type(s[2], self.a.tmap) if s[2] else None
+            if ty is None:
+                self.err("`let %s;` without a type" % s[1])
+            env[s[1]] = ("uninit", ty)
+            return self.seq(rest, tail, env, ctx, ind)
+        if k == "return":
+            if self.guard_mode:
+                rets, _ = self.effects(s[1]) if s[1][0] != "unit" else (False, [])
+                if rets:
+                    self.err("a returned value that can itself panic is not supported in a guard prologue")
+                return ctx.final("(Except.ok GluePrelude.Flow.returns)")
+            if self.is_blocklike(s[1]):
+                rets, asg = self.effects(s[1])
+                if rets:
+                    self.err("`return` inside the operand of a `return`")
+            if s[1][0] == "unit":
+                return ctx.final(self.wrap_ok("()"))
+            v, t = self.expr(s[1], env, ind)
+            self.same(t, self.ret_ty, "returned value")
+            return ctx.final(self.wrap_ok(v))
+        if k in ("assignp", "assignop"):
+            place = s[1] if k == "assignp" else s[2]
+            rhs = s[2] if k == "assignp" else s[3]
+            pt = self.place_type(place, env)
+            rv, rt = self.expr(rhs, env, ind)
+            if k == "assignop":
+                cur = self.place_expr(place, env, ind)
+                rv, rt = self.binop(s[1], cur, (rv, rt))
+            self.same(rt, pt, "assignment")
+            root, nv = self.update(place, rv, env, ind)
+            if isinstance(env.get(root), tuple) and env[root][0] == "uninit":
+                env[root] = env[root][1]
+            return "let %s := %s;\n%s%s" % (ident(root), nv, pad, self.seq(rest, tail, env, ctx, ind))
+        if k == "let":
+            pat, e = s[1], s[2]
+            if self.is_blocklike(e):
+                rets, asg = self.effects(e)
+                asg = [a for a in asg if a in env]
+                if rets or asg:
+                    return self.consume(e, pat, rest, tail, env, ctx, ind)
+            bound = self.try_bind_call(e, pat, rest, tail, env, ctx, ind)
+            if bound is not None:
+                return bound
+            if pat[0] == "ptuple" and e[0] == "tuple" and len(pat[1]) == len(e[1]):
+                vals = [self.expr(i, env, ind) for i in e[1]]        # evaluated before any is bound
+                out = ""
+                names = set(self.pat_names(pat))
+                if any(re.search(r"(?<![A-Za-z0-9_.])%s(?![A-Za-z0-9_])" % re.escape(ident(n)), v) for v, _ in vals for n in names):
+                    tv, tt = self.expr(e, env, ind)
+                    return self.bind(pat, tv, tt, env, pad) + self.seq(rest, tail, env, ctx, ind)
+                for p1, (v, t) in zip(pat[1], vals):
+                    out += self.bind(p1, v, t, env, pad)
+                return out + self.seq(rest, tail, env, ctx, ind)
+            v, t = self.expr(e, env, ind + 1)
+            if s[3]:
+                self.same(rust_type(s[3], self.a.tmap), t, "annotated `let`")
+            return self.bind(pat, v, t, env, pad) + self.seq(rest, tail, env, ctx, ind)
+        if k == "expr":
+            e = s[1]
+            if self.diverges_call(e):
+                return ctx.final(self.panic_of(e))
+            if e[0] == "call" and e[1][0] == "path" and e[1][1][-1] in self.a.inplace:
+                target = self.a.inplace[e[1][1][-1]]
+                if not e[2] or e[2][0][0] != "refmut":
+                    self.err("%s: first argument must be `&mut place`" % e[1][1][-1])
+                place = e[2][0][1]
+                cur = self.place_expr(place, env, ind)
+                avs = [cur] + [self.expr(a, env, ind) for a in e[2][1:]]
+                nv, nt = self.apply(self.a.funcs[target], [a[0] for a in avs], target)
+                self.same(nt, self.place_type(place, env), "in-place kernel")
+                root, term = self.update(place, nv, env, ind)
+                return "let %s := %s;\n%s%s" % (ident(root), term, pad, self.seq(rest, tail, env, ctx, ind))
+            bound = self.try_bind_call(e, None, rest, tail, env, ctx, ind)
+            if bound is not None:
+                return bound
+            if self.is_blocklike(e):
+                rets, asg = self.effects(e)
+                asg = [a for a in asg if a in env]
+                if not rets and not asg:
+                    self.err("statement without effect")
+                n = self.exits(e)
+                if n == 0:
+                    return self.blocklike(e, env, ctx, ind)
+                if n == 1 and not (self.declared_in(e) & set(env)):
+                    c2 = Ctx(lambda v, t, e2, i2: self.seq(rest, tail, e2, ctx, i2), ctx.final, "cont")
+                    return self.blocklike(e, env, c2, ind)
+                return self.consume(e, None, rest, tail, env, ctx, ind)
+            self.err("expression statement that is neither an assignment nor a guard")
+        self.err("statement kind %s" % k)
+
+    def panic_of(self, e):
+        name = e[1][1][-1]
+        if not self.panic_mode:
+            self.err("%s() reached in a function translated without a panic result" % name)
+        return "(Except.error GluePrelude.Panic.%s)" % self.a.funcs[name][1]
+
+    def try_bind_call(self, e, pat, rest, tail, env, ctx, ind):
+        """`let p = f(…);` / `f(…);` where f is a generated function with a panic result"""
+        pad = "  " * ind
+        sym, args, gens, name = None, None, [], None
+        if e[0] == "call" and e[1][0] == "path":
+            p = e[1][1]
+            name = p[-1]
+            for key in (("::".join(p[-2:]) if len(p) >= 2 else None), name):
+                if key and isinstance(self.syms.get((None, key)), GenSym):
+                    sym = self.syms[(None, key)]
+                    break
+            if sym:
+                args = [self.expr(a, env, ind) for a in e[2]]
+                gens = e[1][2] if len(e[1]) > 2 else []
+        elif e[0] == "mcall":
+            # only a receiver without effects
+            try:
+                rv, rt = self.expr(e[1], env, ind)
+            except ExtractError:
+                return None
+            cand = self.lookup_method(rt, e[2])
+            if isinstance(cand, GenSym):
+                sym, name = cand, e[2]
+                args = [(rv, rt)] + [self.expr(a, env, ind) for a in e[3]]
+        if sym is None or not sym.panics:
+            return None
+        if not self.panic_mode:
+            self.err("call of the panicking function %s in a function translated without a panic result" % name)
+        call = self.gen_call(sym, self.cgen_args(gens, sym, env) if sym.cgen else [], args, name)
+        t = self.tmp()
+        e2 = dict(env)
+        binds = self.bind(pat, t, sym.ret, e2, pad + "    ") if pat is not None else ""
+        body = self.seq(rest, tail, e2, ctx, ind + 2)
+        return "(match %s with\n%s  | Except.error e_ => %s\n%s  | Except.ok %s =>\n%s    %s%s)" % (
+            call, pad, ctx.final("(Except.error e_)"), pad, t if pat is not None else "_", pad, binds, body)
+
+    def consume(self, e, pat, rest, tail, env, ctx, ind):
+        """block-like e with several normal exits and/or assignments: evaluate it to
+        (value, new state) — inside a Sum when it can leave the function — then continue"""
+        pad = "  " * ind
+        rets, asg = self.effects(e)
+        M = [a for a in asg if a in env]
+        t = self.tmp()
+        envs = []
+
+        def normal(v, vt, e2, i2):
+            envs.append(e2)
+            s = self.pack(v, vt, M, e2)
+            return "(Sum.inl %s)" % s if rets else s
+        inner = Ctx(None, (lambda s: "(Sum.inr %s)" % s) if rets else None, "sum" if rets else "pure")
+        inner.normal = self.recording(inner, normal)
+        if not rets:
+            inner.final = lambda s: self.err("internal: final in a pure context")
+        body = self.blocklike(e, dict(env), inner, ind + 2)
+        vt = self.vtype(inner)
+        if pat is None and vt not in (None, "Unit"):
+            vt_eff = None       # value of a statement is discarded
+            self.err("value of a statement-level block with several exits is discarded (type %r)" % (vt,))
+        # after e: the assigned variables are initialised
+        env2 = dict(env)
+        for m in M:
+            if isinstance(env2[m], tuple) and env2[m][0] == "uninit":
+                env2[m] = env2[m][1]
+        pty = self.pack_ty(vt, M, env2)
+        n_items = (0 if vt in ("Unit", None) else 1) + len(M)
+        binds = ""
+        idx = 0
+        if vt not in ("Unit", None):
+            if pat is not None:
+                binds += self.bind(pat, proj(t, 0, n_items), vt, env2, pad + ("    " if rets else ""))
+            idx = 1
+        for m in M:
+            binds += "let %s := %s;\n%s" % (ident(m), proj(t, idx, n_items), pad + ("    " if rets else ""))
+            idx += 1
+        if rets:
+            after = self.seq(rest, tail, env2, ctx, ind + 2)
+            return "(match (%s : Sum %s %s) with\n%s  | Sum.inr r_ => %s\n%s  | Sum.inl %s =>\n%s    %s%s)" % (
+                body, ty_lean(pty), ty_lean(self.final_ty()), pad, ctx.final("r_"), pad,
+                t if n_items else "_", pad, binds, after)
+        after = self.seq(rest, tail, env2, ctx, ind)
+        return "let %s : %s := %s;\n%s%s%s" % (t, ty_lean(pty), body, pad, binds, after)
+
+    def blocklike(self, e, env, ctx, ind):
+        """translate if / if-let / match / block whose branches finish through ctx"""
+        pad = "  " * ind
+        k = e[0]
+        if k == "block":
+            return self.seq(list(e[1]), e[2], dict(env), ctx, ind)
+        if k == "if":
+            cond, swap = e[1], False
+            # canonical polarity: `if !c { A } else { B }` is written `if c then B else A`
+            # (a negated comparison is folded into the opposite comparison by expr())
+            while cond[0] == "un" and cond[1] == "!" and not (cond[2][0] == "bin" and cond[2][1] in NEG_CMP):
+                cond, swap = cond[2], not swap
+            c, ct = self.expr(cond, env, ind)
+            self.same(ct, "Bool", "condition")
+            th = self.seq(list(e[2][1]), e[2][2], dict(env), ctx, ind + 1)
+            if e[3] is None:
+                el = ctx.normal(None, "Unit", dict(env), ind + 1)
+            elif e[3][0] == "block":
+                el = self.seq(list(e[3][1]), e[3][2], dict(env), ctx, ind + 1)
+            else:
+                el = self.blocklike(e[3], dict(env), ctx, ind + 1)
+            if swap:
+                th, el = el, th
+            return "(if %s then\n%s  %s\n%selse\n%s  %s)" % (c, pad, th, pad, pad, el)
+        if k == "iflet":
+            v, vt = self.expr(e[2], env, ind)
+            e2 = dict(env)
+            p = self.pat(e[1], vt, e2)
+            th = self.seq(list(e[3][1]), e[3][2], e2, ctx, ind + 2)
+            if e[4] is None:
+                el = ctx.normal(None, "Unit", dict(env), ind + 2)
+            elif e[4][0] == "block":
+                el = self.seq(list(e[4][1]), e[4][2], dict(env), ctx, ind + 2)
+            else:
+                el = self.blocklike(e[4], dict(env), ctx, ind + 2)
+            return "(match %s with\n%s  | %s =>\n%s    %s\n%s  | _ =>\n%s    %s)" % (v, pad, p, pad, th, pad, pad, el)
+        if k == "match":
+            scr = e[1]
+            # canonical form of a match on a boolean: an `if`
+            if scr[0] != "tuple" and len(e[2]) == 2:
+                pats = [p for p, _ in e[2]]
+                lits = [p[1] if p[0] == "plit" else ("_" if p[0] == "pwild" else None) for p in pats]
+                if lits[0] in ("true", "false") and lits[1] in ("true", "false", "_") and lits[0] != lits[1]:
+                    a_true = e[2][0][1] if lits[0] == "true" else e[2][1][1]
+                    a_false = e[2][1][1] if lits[0] == "true" else e[2][0][1]
+                    blk = lambda b: b if b[0] == "block" else ("block", [], b)
+                    return self.blocklike(("if", scr, blk(a_true), blk(a_false)), env, ctx, ind)
+            if scr[0] == "tuple":
+                svs = [self.expr(i, env, ind) for i in scr[1]]
+            else:
+                svs = [self.expr(scr, env, ind)]
+            out = "(match " + ", ".join(v for v, _ in svs) + " with"
+            arms = []
+            for pat, body in e[2]:
+                for a in (pat[1] if pat[0] == "por" else [pat]):
+                    arms.append((a, body))
+            # canonical order of the arms: closed patterns (constructors / literals only) are pairwise
+            # disjoint, so the leading run of them is sorted; arms with `_` or bindings keep their place
+            n_closed = 0
+            while n_closed < len(arms) and self.closed_pat(arms[n_closed][0]):
+                n_closed += 1
+            arms = sorted(arms[:n_closed], key=lambda ab: self.pat_key(ab[0])) + arms[n_closed:]
+            for a, body in arms:
+                for a in [a]:
+                    e2 = dict(env)
+                    if len(svs) > 1:
+                        if a[0] == "ptuple" and len(a[1]) == len(svs):
+                            ps = ", ".join(self.pat(x, t, e2) for x, (_, t) in zip(a[1], svs))
+                        elif a[0] == "pwild":
+                            ps = ", ".join("_" for _ in svs)
+                        else:
+                            self.err("match arm pattern does not fit the tuple scrutinee")
+                    else:
+                        ps = self.pat(a, svs[0][1], e2)
+                    if body[0] == "block":
+                        b = self.seq(list(body[1]), body[2], e2, ctx, ind + 2)
+                    else:
+                        b = self.seq([], body, e2, ctx, ind + 2)
+                    out += "\n%s  | %s =>\n%s    %s" % (pad, ps, pad, b)
+            return out + ")"
+        self.err("internal: blocklike(%s)" % k)
+
+
+# ================================================================== v2: items, areas, generation
+
+def line_of(src, pos):
+    return src.count("\n", 0, pos) + 1
+
+
+def fn_item(src, fn_name, after=None, rel="?"):
+    """locate `fn fn_name` (after the first match of regex `after`): signature and body"""
+    pos = 0
+    if after:
+        m = re.search(after, src)
+        if not m:
+            raise ExtractError("%s: anchor %r not found" % (rel, after))
+        pos = m.end()
+    m = re.compile(r"\bfn\s+%s\b" % re.escape(fn_name)).search(src, pos)
+    if not m:
+        raise ExtractError("%s: fn %s not found" % (rel, fn_name))
+    q = m.end()
+    while src[q].isspace():
+        q += 1
+    cgen = []
+    if src[q] == "<":
+        depth, q0 = 0, q
+        while True:
+            if src[q] == "<":
+                depth += 1
+            elif src[q] == ">" and src[q - 1] != "-":
+                depth -= 1
+                if depth == 0:
+                    q += 1
+                    break
+            q += 1
+        for part in split_top(src[q0 + 1:q - 1]):
+            mm = re.match(r"\s*const\s+(\w+)\s*:\s*(\w+)", part)
+            if mm:
+                cgen.append((mm.group(1), mm.group(2)))
+    p0 = src.index("(", q)
+    p1 = balanced(src, p0, "(", ")")
+    params_txt = src[p0 + 1:p1 - 1]
+    b0 = src.index("{", p1)
+    head = src[p1:b0]
+    if ";" in head:
+        raise ExtractError("%s: fn %s has no body here" % (rel, fn_name))
+    mret = re.match(r"\s*->\s*(.+?)\s*(?:where\b.*)?$", head, re.S)
+    ret = mret.group(1).strip() if mret else None
+    b1 = balanced(src, b0)
+    params = []
+    for part in split_top(params_txt):
+        part = part.strip()
+        if not part:
+            continue
+        if re.fullmatch(r"&?\s*(?:'\w+\s+)?(?:mut\s+)?self", part):
+            params.append(("self", None))
+            continue
+        nm, ty = part.split(":", 1)
+        nm = nm.strip()
+        nm = re.sub(r"^mut\s+", "", nm)
+        params.append((nm, ty.strip()))
+    return {"name": fn_name, "params": params, "ret": ret, "cgen": cgen, "body": src[b0:b1],
+            "text": src[m.start():b1], "lines": (line_of(src, m.start()), line_of(src, b1 - 1)), "rel": rel}
+
+
+class PanicNeeded(ExtractError):
+    pass
+
+
+class Target:
+    """one source item → one generated definition"""
+    def __init__(self, rel, fn, lean=None, after=None, self_ty=None, method_of=None, alias=None, doc=None,
+                 macro=None, macro_args=None, params=None, ret=None, guard=False, stop_at=None, register=True):
+        self.rel, self.fn, self.after, self.self_ty = rel, fn, after, self_ty
+        self.lean = lean or fn
+        self.method_of, self.alias, self.doc = method_of, alias, doc
+        self.macro, self.macro_args, self.params, self.ret = macro, macro_args, params, ret
+        # guard=True: only the PROLOGUE of the body is translated (up to the first match of `stop_at`, which must be
+        # at statement level; the whole body when None) and only its control flow: the result is
+        # `Except Panic Flow` — panics with a kind, `returns` (an early `return`, the value is not translated),
+        # or `continues` (control reaches the part that is not translated)
+        self.guard, self.stop_at, self.register = guard, stop_at, register
+
+
+def gen_target(area, syms, t):
+    src = read(t.rel)
+    it = fn_item(src, t.fn, t.after, t.rel)
+    where = "%s:%d `%s`" % (t.rel, it["lines"][0], t.fn)
+    tmap = dict(area.tmap)
+    if t.self_ty:
+        tmap["Self"] = t.self_ty
+    params = []
+    for nm, ty in it["params"]:
+        if nm == "self":
+            if not t.self_ty:
+                raise ExtractError("%s: method without a configured receiver type" % where)
+            params.append(("self", t.self_ty))
+        else:
+            try:
+                params.append((nm, rust_type(ty, tmap)))
+            except ExtractError as e:
+                raise ExtractError("%s: parameter %s: %s" % (where, nm, e))
+    if t.guard:
+        ret = "Flow"
+        if t.stop_at:
+            m = re.search(t.stop_at, it["body"])
+            if not m:
+                raise ExtractError("%s: the end of the guard prologue (%r) is not in the body any more" % (where, t.stop_at))
+            head = it["body"][:m.start()]
+            code = re.sub(r"//[^\n]*", "", head)
+            if code.count("{") - code.count("}") != 1:
+                raise ExtractError("%s: the end of the guard prologue is not at statement level" % where)
+            it = dict(it, body=head + "}", text=it["text"][:it["text"].index(it["body"]) + m.start()])
+    else:
+        try:
+            ret = rust_type(it["ret"], tmap) if it["ret"] else "Unit"
+        except ExtractError as e:
+            raise ExtractError("%s: return type: %s" % (where, e))
+    cgen = [(n, ty) for n, ty in it["cgen"] if n != "B"]
+    for n, ty in cgen:
+        if ty != "bool":
+            raise ExtractError("%s: const generic %s: %s not supported" % (where, n, ty))
+    toks = tokenize(it["body"])
+    try:
+        ps = P2(toks)
+        body = ps.block()
+        if ps.peek()[0] != "eof":
+            raise ExtractError("trailing tokens after the body")
+    except ExtractError as e:
+        raise ExtractError("%s: translator cannot read this body: %s" % (where, e))
+    except IndexError:
+        raise ExtractError("%s: translator cannot read this body: unexpected end of input" % where)
+
+    def run(panic_mode):
+        tr = Tr(area, syms, where, ret, panic_mode or t.guard, t.self_ty)
+        tr.guard_mode = t.guard
+        tr.guard_cut = bool(t.stop_at)
+        tr.area_tmap = tmap
+        env = {}
+        for n, _ in cgen:
+            env[n] = "Bool"
+        for n, ty in params:
+            env[n.lstrip("_") if n != "_" else n] = ty
+
+        def normal(v, vt, e2, i2):
+            if t.guard:
+                return tr.wrap_ok("GluePrelude.Flow.continues" if t.stop_at else "GluePrelude.Flow.returns")
+            if vt == "Unit" and ret == "Unit":
+                return tr.wrap_ok("()")
+            tr.same(vt, ret, "result")
+            return tr.wrap_ok(v)
+        ctx = Ctx(normal, lambda s: s, "fn")
+        old = area.tmap
+        area.tmap = tmap
+        try:
+            text = tr.seq(list(body[1]), body[2], env, ctx, 2)
+        finally:
+            area.tmap = old
+        return tr, text
+
+    if t.guard:
+        tr, text = run(True)
+        panic_mode = True
+    else:
+        try:
+            tr, text = run(False)
+            panic_mode = False
+        except ExtractError as e:
+            if "without a panic result" not in str(e):
+                raise
+            tr, text = run(True)
+            panic_mode = True
+    sig = []
+    if tr.uses_k:
+        sig.append("(k : %s)" % area.kernel)
+    for n, _ in cgen:
+        sig.append("(%s : Bool)" % ident(n))
+    for n, ty in params:
+        sig.append("(%s : %s)" % (ident(n.lstrip("_")) if n != "_" else "_", ty_lean(ty)))
+    fin = ("except", ret) if panic_mode else ret
+    h = hashlib.sha1(it["text"].encode()).hexdigest()[:12]
+    doc = "/-- `%s` — %s:%d-%d, sha1 %s%s -/" % (t.doc or t.fn, t.rel, it["lines"][0], it["lines"][1], h,
+                                                "; result `Except Panic _`: the body can panic" if panic_mode else "")
+    lean = "%s\ndef %s %s : %s :=\n    %s\n" % (doc, t.lean, " ".join(sig), ty_lean(fin), text)
+    sym = GenSym("Gen." + t.lean if False else t.lean, params, ret, tr.uses_k, panic_mode, cgen)
+    if not t.register:
+        return lean, h
+    if t.method_of:
+        syms[(t.method_of, t.fn)] = sym
+    elif t.alias:
+        syms[(None, t.alias)] = sym
+    else:
+        syms[(None, t.fn)] = sym
+    return lean, h
+
+
+SELF_RUST = {"FBig": "FBig", "FRepr": "Repr", "FCtx": "Context", "QRepr": "Repr"}
+
+
+def gen_const(area, syms, t):
+    """`const NAME: Self = EXPR;` inside an impl → a generated constant"""
+    src = read(t.rel)
+    pos = 0
+    if t.after:
+        m = re.search(t.after, src)
+        if not m:
+            raise ExtractError("%s: anchor %r not found" % (t.rel, t.after))
+        pos = m.end()
+    m = re.compile(r"\bconst\s+%s\s*:\s*([^=]+?)\s*=\s*([^;]+);" % re.escape(t.fn)).search(src, pos)
+    if not m:
+        raise ExtractError("%s: const %s not found" % (t.rel, t.fn))
+    where = "%s:%d `const %s`" % (t.rel, line_of(src, m.start()), t.fn)
+    tmap = dict(area.tmap)
+    if t.self_ty:
+        tmap["Self"] = t.self_ty
+    ty = rust_type(m.group(1), tmap)
+    try:
+        ps = P2(tokenize(m.group(2)))
+        e = ps.expr()
+        if ps.peek()[0] != "eof":
+            raise ExtractError("trailing tokens")
+    except ExtractError as ex:
+        raise ExtractError("%s: translator cannot read this initialiser: %s" % (where, ex))
+    tr = Tr(area, syms, where, ty, False, t.self_ty)
+    old = area.tmap
+    area.tmap = tmap
+    try:
+        v, vt = tr.expr(e, {}, 2)
+    finally:
+        area.tmap = old
+    tr.same(vt, ty, "constant")
+    if tr.uses_k:
+        raise ExtractError("%s: constant depends on the kernel record" % where)
+    h = hashlib.sha1(m.group(0).encode()).hexdigest()[:12]
+    l0, l1 = line_of(src, m.start()), line_of(src, m.end())
+    lean = "/-- `%s` — %s:%d-%d, sha1 %s -/\ndef %s : %s :=\n    %s\n" % (t.doc or t.fn, t.rel, l0, l1, h, t.lean, ty_lean(ty), v)
+    syms[("const", t.alias)] = (t.lean, ty)
+    return lean, h
+
+
+def gen_area(area, syms):
+    out = ["import Dashu.Model.GluePrelude.Ext"]
+    for u in area.uses:
+        out.append("import Dashu.Gen.%s" % u)
+    out += ["/-! GENERATED by vlib/extract.py from /repo — do not edit.  %s -/" % area.doc,
+            "namespace Dashu.Gen", "open Dashu", "set_option linter.unusedVariables false"]
+    if area.variables:
+        out.append(area.variables)
+    out.append("")
+    info = {}
+    for t in area.targets:
+        lean, h = gen_const(area, syms, t) if t.macro == "const" else gen_target(area, syms, t)
+        out.append(lean)
+        info[t.lean] = h
+    out.append("end Dashu.Gen")
+    return "\n".join(out) + "\n", info
+
+
+# ------------------------------------------------------------------ v2 areas
+
+FLOAT_TMAP = {"Repr": "FRepr", "FloatRepr": "FRepr", "FBig": "FBig", "Context": "FCtx"}
+FLOAT_PANICS = {
+    "panic_operate_with_inf": ("PANIC", "OperateWithInf"),
+    "panic_unlimited_precision": ("PANIC", "UnlimitedPrecision"),
+    "panic_power_negative_base": ("PANIC", "PowerNegativeBase"),
+    "panic_log_nonpositive": ("PANIC", "LogNonPositive"),
+    "panic_root_negative": ("PANIC", "RootNegative"),
+}
+FLOAT_K_METHODS = {
+    ("FRepr", "digits_ub"): ("(k.digits_ub {0})", "Int"),
+    ("FRepr", "digits"): ("(k.digits {0})", "Int"),
+    ("FRepr", "log2_bounds"): ("(k.log2_bounds_repr {0})", ("tuple", ("E", "E"))),
+    ("Int", "log2_bounds"): ("(k.log2_bounds_int {0})", ("tuple", ("E", "E"))),
+}
+FLOAT_K_FUNCS = {
+    "shl_digits": ("(k.shl_digits {0} {1})", "Int", ["Int", "Int"]),
+    "shr_digits": ("(k.shr_digits {0} {1})", "Int", ["Int", "Int"]),
+    "split_digits": ("(k.split_digits {0} {1})", ("tuple", ("Int", "Int")), ["Int", "Int"]),
+    "split_digits_ref": ("(k.split_digits {0} {1})", ("tuple", ("Int", "Int")), ["Int", "Int"]),
+    "digit_len": ("(k.digit_len {0})", "Int", ["Int"]),
+    "Repr::new": ("(k.repr_new {0} {1})", "FRepr", ["Int", "Int"]),
+    "R::round_fract": ("(k.round_fract {0} {1} {2})", "Rounding", ["Int", "Int", "Int"]),
+    "Up::round_fract": ("(k.round_fract_up {0} {1} {2})", "Rounding", ["Int", "Int", "Int"]),
+    "Down::round_fract": ("(k.round_fract_down {0} {1} {2})", "Rounding", ["Int", "Int", "Int"]),
+    "HalfAway::round_fract": ("(k.round_fract_half_away {0} {1} {2})", "Rounding", ["Int", "Int", "Int"]),
+}
+FLOAT_CONSTS = {("IBig", "ZERO"): ("(0 : Int)", "Int"), ("IBig", "ONE"): ("(1 : Int)", "Int"),
+                ("IBig", "NEG_ONE"): ("(-1 : Int)", "Int"), ("UBig", "ZERO"): ("(0 : Int)", "Int"),
+                ("UBig", "ONE"): ("(1 : Int)", "Int")}
+
+
+def float_area(name, doc, uses=()):
+    funcs = dict(FLOAT_PANICS)
+    funcs.update(FLOAT_K_FUNCS)
+    return Area(name, doc, FLOAT_TMAP, kernel="GluePrelude.FloatK E", uses=uses, methods=FLOAT_K_METHODS,
+                funcs=funcs, consts=FLOAT_CONSTS, inplace={"shl_digits_in_place": "shl_digits"},
+                variables="variable {E : Type}")
+
+
+def build_areas():
+    areas = []
+    IMPL_REPR = r"impl<const B: Word> Repr<B> \{"
+    IMPL_CTX = r"impl<R: Round> Context<R> \{"
+
+    a = float_area("FloatRepr", "Predicates of `float/src/repr.rs` and the assertion helpers of `float/src/error.rs`.")
+    R = "float/src/repr.rs"
+    for fn in ("is_zero", "is_one", "is_infinite", "is_finite", "is_int", "sign", "smaller_than_one"):
+        a.targets.append(Target(R, fn, lean="Repr_" + fn, after=IMPL_REPR, self_ty="FRepr", method_of="FRepr",
+                                doc="Repr::<B>::" + fn))
+    a.targets.append(Target(R, "max", lean="Context_max", after=IMPL_CTX, self_ty="FCtx", alias="Context::max",
+                            doc="Context::<R>::max"))
+    a.targets.append(Target(R, "is_limited", lean="Context_is_limited", after=IMPL_CTX, self_ty="FCtx",
+                            method_of="FCtx", doc="Context::<R>::is_limited"))
+    for fn in ("assert_finite", "assert_finite_operands", "assert_limited_precision"):
+        a.targets.append(Target("float/src/error.rs", fn))
+    for fn in ("zero", "one", "neg_one", "infinity", "neg_infinity"):
+        a.targets.append(Target(R, fn, lean="Repr_" + fn, after=IMPL_REPR, self_ty="FRepr", alias="Repr::" + fn,
+                                doc="Repr::<B>::" + fn))
+    a.targets.append(Target(R, "new", lean="Context_new", after=IMPL_CTX, self_ty="FCtx", alias="Context::new",
+                            doc="Context::<R>::new"))
+    FB = "float/src/fbig.rs"
+    IMPL_FBIG = r"impl<R: Round, const B: Word> FBig<R, B> \{"
+    a.targets.append(Target(FB, "new", lean="FBig_new", after=IMPL_FBIG, self_ty="FBig", alias="FBig::new",
+                            doc="FBig::<R, B>::new"))
+    for c in ("ZERO", "ONE", "NEG_ONE", "INFINITY", "NEG_INFINITY"):
+        a.targets.append(Target(FB, c, lean="FBig_" + c, after=IMPL_FBIG, self_ty="FBig", alias="FBig::" + c,
+                                doc="FBig::<R, B>::" + c, macro="const"))
+    a.targets.append(Target("float/src/sign.rs", "neg", lean="Repr_neg", after=r"impl<const B: Word> Neg for Repr<B> \{",
+                            self_ty="FRepr", method_of="FRepr", doc="<Repr<B> as Neg>::neg"))
+    areas.append(a)
+
+    a = float_area("FloatRound", "`Context::repr_round` / `repr_round_ref` of `float/src/repr.rs`.", uses=["FloatRepr"])
+    for fn in ("repr_round", "repr_round_ref"):
+        a.targets.append(Target(R, fn, lean="Context_" + fn, after=IMPL_CTX, self_ty="FCtx", method_of="FCtx",
+                                doc="Context::<R>::" + fn))
+    areas.append(a)
+
+    a = float_area("FloatAdd", "Addition and subtraction of floats: `float/src/add.rs`.", uses=["FloatRepr", "FloatRound"])
+    A = "float/src/add.rs"
+    for fn in ("repr_round_sum", "repr_add_large_small", "repr_add_small_large", "add", "sub"):
+        a.targets.append(Target(A, fn, lean="Context_" + fn, after=IMPL_CTX, self_ty="FCtx", method_of="FCtx",
+                                doc="Context::<R>::" + fn))
+    for fn in ("add_val_val", "add_val_ref", "add_ref_val", "add_ref_ref"):
+        a.targets.append(Target(A, fn))
+    areas.append(a)
+
+    a = float_area("FloatRoundOps", "Rounding a float to an integer: `float/src/round_ops.rs`.", uses=["FloatRepr"])
+    O = "float/src/round_ops.rs"
+    for fn in ("split_at_point_internal", "trunc", "split_at_point", "fract", "ceil", "floor", "round"):
+        a.targets.append(Target(O, fn, lean="FBig_" + fn, after=IMPL_FBIG, self_ty="FBig", method_of="FBig",
+                                doc="FBig::<R, B>::" + fn))
+    areas.append(a)
+
+    a = float_area("FloatCmp", "Comparison of floats: `float/src/cmp.rs`.", uses=["FloatRepr"])
+    C = "float/src/cmp.rs"
+    a.targets.append(Target(C, "eq", lean="FBig_eq", after=r"PartialEq<FBig<R2, B>> for FBig<R1, B> \{",
+                            self_ty="FBig", doc="<FBig as PartialEq>::eq"))
+    a.targets.append(Target(C, "repr_cmp_same_base"))
+    a.targets.append(Target(C, "cmp", lean="Repr_cmp", after=r"impl<const B: Word> Ord for Repr<B> \{",
+                            self_ty="FRepr", method_of="FRepr", doc="<Repr<B> as Ord>::cmp"))
+    a.targets.append(Target(C, "cmp", lean="FBig_cmp", after=r"impl<R: Round, const B: Word> Ord for FBig<R, B> \{",
+                            self_ty="FBig", doc="<FBig as Ord>::cmp"))
+    a.targets.append(Target(C, "abs_cmp", lean="FBig_abs_cmp", after=r"impl<R: Round, const B: Word> AbsOrd for FBig<R, B> \{",
+                            self_ty="FBig", doc="<FBig as AbsOrd>::abs_cmp"))
+    a.targets.append(Target(C, "repr_cmp_ubig"))
+    a.targets.append(Target(C, "repr_cmp_ibig"))
+    areas.append(a)
+
+    a = float_area("FloatGuards", "Entry guards (the prologue up to the first computation) of float operations that can panic.",
+                   uses=["FloatRepr", "FloatRound", "FloatCmp"])
+    a.targets.append(Target("float/src/exp.rs", "powf", lean="guard_Context_powf", after=IMPL_CTX, self_ty="FCtx",
+                            doc="Context::<R>::powf (prologue)", guard=True, stop_at=r"// x\^y = exp\(y\*ln\(x\)\)", register=False))
+    a.targets.append(Target("float/src/log.rs", "ln_internal", lean="guard_Context_ln_internal", after=IMPL_CTX, self_ty="FCtx",
+                            doc="Context::<R>::ln_internal (prologue)", guard=True, stop_at=r"// A simple algorithm", register=False))
+    a.targets.append(Target("float/src/root.rs", "sqrt", lean="guard_Context_sqrt", after=IMPL_CTX, self_ty="FCtx",
+                            doc="Context::<R>::sqrt (prologue)", guard=True, stop_at=r"// adjust the signifcand", register=False))
+    a.targets.append(Target("float/src/div.rs", "repr_div", lean="guard_Context_repr_div", after=IMPL_CTX, self_ty="FCtx",
+                            doc="Context::<R>::repr_div (prologue)", guard=True, stop_at=r"// this method don't deal", register=False))
+    a.targets.append(Target("float/src/div.rs", "div", lean="guard_Context_div", after=IMPL_CTX, self_ty="FCtx",
+                            doc="Context::<R>::div (prologue)", guard=True, stop_at=r"let lhs_repr = ", register=False))
+    a.targets.append(Target("float/src/fbig.rs", "ulp", lean="guard_FBig_ulp", after=IMPL_FBIG, self_ty="FBig",
+                            doc="FBig::<R, B>::ulp (prologue)", guard=True, stop_at=r"let repr = Repr \{", register=False))
+    areas.append(a)
+
+    INT_PANICS = {"panic_root_zeroth": ("PANIC", "RootZeroth"), "panic_root_negative": ("PANIC", "RootNegative"),
+                  "panic_invalid_radix": ("PANIC", "InvalidRadix"), "panic_divide_by_0": ("PANIC", "DivideByZero"),
+                  "panic_negative_ubig": ("PANIC", "NegativeUBig"), "panic_invalid_log_oprand": ("PANIC", "InvalidLogOperand")}
+    a = Area("IntGuards", "Entry guards of integer and rational operations that can panic.",
+             {"Repr": "QRepr", "RBig": "QRepr", "Relaxed": "QRepr", "Digit": "Int"}, funcs=INT_PANICS,
+             consts={("Sign", "Negative"): ("Sign.Negative", "Sign"), ("Sign", "Positive"): ("Sign.Positive", "Sign")})
+    RX = "integer/src/radix.rs"
+    for c in ("MIN_RADIX", "MAX_RADIX"):
+        a.targets.append(Target(RX, c, lean="radix_" + c, alias=c, macro="const", doc=c))
+    a.targets.append(Target(RX, "is_radix_valid", lean="radix_is_radix_valid", alias="radix::is_radix_valid"))
+    a.targets.append(Target("integer/src/fmt/mod.rs", "in_radix", lean="guard_UBig_in_radix", after=r"\nimpl UBig \{", self_ty="Int",
+                            doc="UBig::in_radix (guard)", guard=True, register=False))
+    a.targets.append(Target("integer/src/fmt/mod.rs", "in_radix", lean="guard_IBig_in_radix", after=r"\nimpl IBig \{", self_ty="Int",
+                            doc="IBig::in_radix (guard)", guard=True, register=False))
+    a.targets.append(Target("integer/src/root_ops.rs", "nth_root", lean="guard_IBig_nth_root", after=r"\nimpl IBig \{", self_ty="Int",
+                            doc="IBig::nth_root (guard)", guard=True, register=False))
+    a.targets.append(Target("integer/src/root_ops.rs", "sqrt", lean="guard_IBig_sqrt", after=r"impl SquareRoot for IBig \{", self_ty="Int",
+                            doc="<IBig as SquareRoot>::sqrt (guard)", guard=True, register=False))
+    a.targets.append(Target("rational/src/rbig.rs", "from_parts", lean="guard_RBig_from_parts", after=r"\nimpl RBig \{", self_ty="QRepr",
+                            doc="RBig::from_parts (guard)", guard=True, register=False))
+    a.targets.append(Target("rational/src/rbig.rs", "from_parts", lean="guard_Relaxed_from_parts", after=r"\nimpl Relaxed \{", self_ty="QRepr",
+                            doc="Relaxed::from_parts (guard)", guard=True, register=False))
+    areas.append(a)
+
+    a = Area("IntOps", "Sign handling of `IBig` comparison and right shift: `integer/src/cmp.rs`, `integer/src/shift_ops.rs`.",
+             {}, funcs={"IBig::from": ("(GluePrelude.b2i {0})", "Int", ["Bool"])})
+    a.targets.append(Target("integer/src/cmp.rs", "cmp", lean="IBig_cmp", after=r"impl Ord for IBig \{", self_ty="Int",
+                            doc="<IBig as Ord>::cmp", register=False))
+    a.targets.append(Target("integer/src/shift_ops.rs", "shr", lean="IBig_shr", after=r"impl Shr<usize> for IBig \{", self_ty="Int",
+                            doc="<IBig as Shr<usize>>::shr", register=False))
+    a.targets.append(Target("integer/src/shift_ops.rs", "shr", lean="IBig_ref_shr", after=r"impl Shr<usize> for &IBig \{", self_ty="Int",
+                            doc="<&IBig as Shr<usize>>::shr", register=False))
+    areas.append(a)
+
+    a = Area("RatCmp", "Comparison of rationals: `rational/src/cmp.rs`.",
+             {"Repr": "QRepr", "RBig": "QRepr", "Relaxed": "QRepr", "FloatRepr": "FRepr"},
+             kernel="GluePrelude.RatK E", uses=["FloatRepr"],
+             methods={("QRepr", "log2_bounds"): ("(k.log2_bounds_q {0})", ("tuple", ("E", "E"))),
+                      ("FRepr", "log2_bounds"): ("(k.log2_bounds_repr {0})", ("tuple", ("E", "E"))),
+                      ("Int", "log2_bounds"): ("(k.log2_bounds_int {0})", ("tuple", ("E", "E"))),
+                      ("Base", "is_power_of_two"): ("k.base_is_pow2{0:.0s}", "Bool"),
+                      ("Base", "trailing_zeros"): ("k.base_tz{0:.0s}", "Int")},
+             funcs={"UBig::from_word": ("k.base{0:.0s}", "Int", ["Base"])},
+             consts={("B",): ("k.base", "Base")}, variables="variable {E : Type}")
+    Q = "rational/src/cmp.rs"
+    a.targets.append(Target(Q, "repr_eq", lean="q_repr_eq"))
+    a.targets.append(Target(Q, "eq", lean="RBig_eq", after=r"impl PartialEq for RBig \{", self_ty="QRepr",
+                            doc="<RBig as PartialEq>::eq"))
+    a.targets.append(Target(Q, "abs_eq", lean="RBig_abs_eq", after=r"impl AbsEq for RBig \{", self_ty="QRepr",
+                            doc="<RBig as AbsEq>::abs_eq"))
+    a.targets.append(Target(Q, "repr_cmp", lean="q_repr_cmp"))
+    a.targets.append(Target(Q, "repr_cmp_ubig", lean="q_repr_cmp_ubig"))
+    a.targets.append(Target(Q, "repr_cmp_ibig", lean="q_repr_cmp_ibig"))
+    a.targets.append(Target(Q, "repr_cmp_fbig", lean="q_repr_cmp_fbig", after=r"mod with_float \{"))
+    areas.append(a)
+    return areas
+
+
+def regenerate_v2(out_dir, only=None):
+    """generate every v2 area into out_dir; returns {file: (text | None, error | None)}, info"""
+    syms, res, info, failed = {}, {}, {}, {}
+    for a in build_areas():
+        fname = a.name + ".lean"
+        bad = [u for u in a.uses if u in failed]
+        if bad:
+            failed[a.name] = "needs Gen/%s.lean (%s)" % (bad[0], failed[bad[0]])
+            res[fname] = (None, failed[a.name])
+            continue
+        try:
+            text, inf = gen_area(a, syms)
+            res[fname] = (text, None)
+            info.update(inf)
+        except ExtractError as e:
+            failed[a.name] = str(e)
+            res[fname] = (None, str(e))
+    return res, info
 
 # ------------------------------------------------------------------ what is generated
 
@@ -773,35 +2849,360 @@ def gen_misc():
 
 
 FILES = {"Glue.lean": gen_glue, "Round.lean": gen_round, "Misc.lean": gen_misc}
+# the v2 areas (typed translator) are listed by build_areas(); one Gen file each
+V2_FILES = [a.name + ".lean" for a in build_areas()]
 
 
-def regenerate(only=None):
-    """rewrite lean/Dashu/Gen/*.lean (only when content changed, so lake does not rebuild);
-    returns (ok, info)"""
-    os.makedirs(GEN_DIR, exist_ok=True)
-    info, ok, errors = {}, True, []
+def generate_all():
+    """{file name: (text | None, error | None)}, info — nothing is written"""
+    res, info = {}, {}
     for fname, fn in FILES.items():
-        if only and fname not in only:
-            continue
         try:
             text, inf = fn()
+            res[fname] = (text, None)
             info.update(inf)
-            path = os.path.join(GEN_DIR, fname)
-            old = open(path).read() if os.path.exists(path) else None
-            if old != text:
-                with open(path + ".tmp", "w") as f:
-                    f.write(text)
-                os.replace(path + ".tmp", path)
-                info.setdefault("_changed", []).append(fname)
         except ExtractError as e:
-            ok = False
-            errors.append("%s: %s" % (fname, e))
+            res[fname] = (None, str(e))
+        except (IndexError, KeyError, ValueError) as e:      # malformed source text: still fail closed
+            res[fname] = (None, "translator cannot read the source: %r" % (e,))
+    try:
+        r2, i2 = regenerate_v2(None)
+    except (IndexError, KeyError, ValueError) as e:
+        r2, i2 = {f: (None, "translator cannot read the source: %r" % (e,)) for f in V2_FILES}, {}
+    res.update(r2)
+    info.update(i2)
+    return res, info
+
+
+def gen_files_needed(modules):
+    """Gen files in the import closure of the given Lean modules (None = all)"""
+    if modules is None:
+        return None
+    seen, todo = set(), list(modules)
+    lean_root = os.path.join(ROOT, "lean")
+    while todo:
+        m = todo.pop()
+        if m in seen:
+            continue
+        seen.add(m)
+        path = os.path.join(lean_root, *m.split(".")) + ".lean"
+        if not os.path.exists(path):
+            continue
+        for line in open(path):
+            mm = re.match(r"\s*(?:public\s+)?import\s+((?:Dashu|Mains)\.[A-Za-z0-9_.]+)", line)
+            if mm:
+                todo.append(mm.group(1))
+    return sorted(m.split(".")[-1] + ".lean" for m in seen if m.startswith("Dashu.Gen."))
+
+
+def _caller_modules():
+    """`check` imports exactly one property module (`vlib.props.cNN`) before it calls regenerate():
+    the Lean modules that run is going to build (theorem modules, audits, the group's driver)"""
+    import sys
+    mods = [m for n, m in sys.modules.items() if re.fullmatch(r"vlib\.props\.c\d\d", n) and m is not None]
+    if len(mods) != 1:
+        return None
+    P = mods[0]
+    out = [getattr(P, "LEAN_PROPS", None), getattr(P, "LEAN_AUDIT", None)]
+    out += list(getattr(P, "GEN_PROPS", [])) + list(getattr(P, "GEN_AUDIT", []))
+    if getattr(P, "GROUP", None):
+        try:
+            txt = open(os.path.join(ROOT, "lean", "lakefile.toml")).read()
+            m = re.search(r'name\s*=\s*"drive_%s"\s*\n\s*root\s*=\s*"([^"]+)"' % re.escape(P.GROUP), txt)
+            out.append(m.group(1) if m else "Mains." + P.GROUP.capitalize())
+        except OSError:
+            return None
+    return [m for m in out if m]
+
+
+def regenerate(only=None, out_dir=None, for_modules=None):
+    """rewrite lean/Dashu/Gen/*.lean (only when content changed, so lake does not rebuild);
+    returns (ok, info).  `for_modules`: Lean modules the caller is going to build — a failure to
+    regenerate a file outside their import closure is reported in info["other_errors"] but does not
+    make the result not-ok (a file that could not be regenerated keeps its previous text)."""
+    gen_dir = out_dir or GEN_DIR
+    os.makedirs(gen_dir, exist_ok=True)
+    res, info = generate_all()
+    if for_modules is None and out_dir is None:
+        for_modules = _caller_modules()
+    needed = gen_files_needed(for_modules)
+    if needed is not None:
+        info["_needed"] = needed
+    ok, errors, other = True, [], []
+    for fname in sorted(res):
+        if only and fname not in only:
+            continue
+        text, err = res[fname]
+        if err is not None:
+            msg = "%s: %s" % (fname, err)
+            if needed is None or fname in needed:
+                ok = False
+                errors.append(msg)
+            else:
+                other.append(msg)
+            continue
+        path = os.path.join(gen_dir, fname)
+        old = open(path).read() if os.path.exists(path) else None
+        if old != text:
+            with open(path + ".tmp", "w") as f:
+                f.write(text)
+            os.replace(path + ".tmp", path)
+            info.setdefault("_changed", []).append(fname)
     if errors:
         info["error"] = "; ".join(errors)
+    if other:
+        info["other_errors"] = "; ".join(other)
     return ok, info
 
 
+# ------------------------------------------------------------------ self test
+
+MUTATIONS = [
+    # (id, file, old text (regex), new text, what it is)
+    ("M1", "float/src/cmp.rs", r"\(Sign::Positive, Sign::Negative\) => return Ordering::Greater,\n(\s*)\(Sign::Negative, Sign::Positive\) => return Ordering::Less,",
+     "(Sign::Positive, Sign::Negative) => return Ordering::Less,\n\\1(Sign::Negative, Sign::Positive) => return Ordering::Greater,",
+     "swap the results of two match arms of the sign table in repr_cmp_same_base"),
+    ("M2", "float/src/cmp.rs", r"if lhs_exp > rhs_exp \+ rhs_digits as isize \{", "if lhs_exp >= rhs_exp + rhs_digits as isize {",
+     "flip `>` to `>=` in the exponent/digit-count shortcut of repr_cmp_same_base"),
+    ("M3", "float/src/add.rs", r"&& rdigits_est \+ 1 < ediff", "&& rdigits_est < ediff",
+     "drop the `+ 1` guard digit of the far-apart test in repr_add_large_small"),
+    ("M4", "float/src/add.rs", r"\(rnd_precision - ldigits\) \+ 2", "(rnd_precision - ldigits) + 1",
+     "change the stand-in precision constant 2 -> 1 in repr_add_large_small"),
+    ("M5", "float/src/round_ops.rs", r"Sign::Positive => FBig::new\(Repr::one\(\), context\),", "Sign::Positive => FBig::new(Repr::zero(), context),",
+     "ceil of a small positive number returns 0 instead of 1"),
+    ("M6", "rational/src/cmp.rs", r"n1d2_bits\.abs_diff\(n2d1_bits\) > 1", "n1d2_bits.abs_diff(n2d1_bits) > 0",
+     "tighten the bit-length filter of rational repr_eq (1 -> 0)"),
+    ("M7", "float/src/repr.rs", r"self\.exponent \+ \(self\.digits_ub\(\) as isize\) < -1", "self.exponent + (self.digits_ub() as isize) < 0",
+     "smaller_than_one threshold -1 -> 0"),
+    ("M8", "integer/src/mul/mod.rs", r"const THRESHOLD_KARATSUBA: usize = 192;", "const THRESHOLD_KARATSUBA: usize = 193;",
+     "change the Karatsuba/Toom-3 dispatch threshold", "model-calls-it"),
+    ("M9", "float/src/round.rs", r"(impl Round for mode::HalfAway \{.*?Ordering::Equal => \{.*?)Rounding::AddOne", "\\1Rounding::SubOne",
+     "HalfAway tie with a positive low part rounds down instead of up"),
+    ("M10", "float/src/cmp.rs", r"if lhs_lo > rhs_hi \{\n(\s*)return Ordering::Greater;", "if !(lhs_lo <= rhs_hi) {\n\\1return Ordering::Greater;",
+     "harmless rewrite `a > b` -> `!(a <= b)` on f32 estimates (operator outside the whitelist)"),
+    ("M11", "rational/src/cmp.rs", r"(fn repr_eq<const ABS: bool>\(a: &Repr, b: &Repr\) -> bool \{)", "\\1\n    for _ in 0..1 {}",
+     "insert a loop into repr_eq (construct outside the decision-logic subset)"),
+    ("M12", "float/src/add.rs", r"Ordering::Greater => self\.repr_add_large_small\(lhs\.clone\(\), rhs, Positive\),\n(\s*)Ordering::Less => self\.repr_add_small_large\(lhs\.clone\(\), rhs, Positive\),",
+     "Ordering::Greater => self.repr_add_small_large(lhs.clone(), rhs, Positive),\n\\1Ordering::Less => self.repr_add_large_small(lhs.clone(), rhs, Positive),",
+     "Context::add calls the two alignment routines the wrong way round"),
+    ("M13", "float/src/root.rs", r"assert_finite\(x\);\n(\s*)assert_limited_precision\(self\.precision\);\n(\s*)if x\.sign\(\) == Sign::Negative \{",
+     "assert_limited_precision(self.precision);\n\\1assert_finite(x);\n\\2if x.sign() == Sign::Negative {",
+     "Context::sqrt checks the precision before the infinity (another panic kind for an infinite operand at precision 0)"),
+    ("M14", "integer/src/root_ops.rs", r"if sign == Sign::Negative && n % 2 == 0 \{", "if sign == Sign::Negative && n % 2 == 1 {",
+     "IBig::nth_root refuses odd roots of negative numbers instead of even ones"),
+    ("M15", "integer/src/radix.rs", r"pub const MAX_RADIX: Digit = 36;", "pub const MAX_RADIX: Digit = 37;",
+     "MAX_RADIX 36 -> 37 (in_radix accepts an undocumented radix)"),
+    ("M16", "integer/src/shift_ops.rs", r"-IBig\(mag >> rhs\) - IBig::from\(b\)", "-IBig(mag >> rhs)",
+     "`IBig >> n` of a negative number truncates toward zero instead of rounding toward -inf (first form only)"),
+    ("M17", "integer/src/cmp.rs", r"\(Negative, Negative\) => rhs_mag\.cmp\(&lhs_mag\),", "(Negative, Negative) => lhs_mag.cmp(&rhs_mag),",
+     "`Ord for IBig` compares two negative numbers by magnitude the wrong way round"),
+]
+
+
+# behaviour-preserving rewrites: the regenerated text is either identical (the translator writes a canonical
+# text) or the theorems over it must still check
+BENIGN = [
+    ("R1", "float/src/cmp.rs", r"return if ABS \{\n\s*Ordering::Equal\n\s*\} else \{\n\s*lhs\.exponent\.cmp\(&rhs\.exponent\)\n\s*\}",
+     "return if !ABS { lhs.exponent.cmp(&rhs.exponent) } else { Ordering::Equal }",
+     "negated condition with the two arms swapped (repr_cmp_same_base)"),
+    ("R2", "float/src/cmp.rs", r"(\(Sign::Positive, Sign::Positive\) => Sign::Positive,\n)(\s*\(Sign::Positive, Sign::Negative\) => return Ordering::Greater,\n)(\s*\(Sign::Negative, Sign::Positive\) => return Ordering::Less,\n)(\s*\(Sign::Negative, Sign::Negative\) => Sign::Negative,\n)",
+     "\\4\\3\\2\\1", "match arms of the sign table in reverse order (repr_cmp_same_base)"),
+    ("R3", "float/src/cmp.rs", r"if lhs_exp > rhs_exp \+ rhs_digits as isize \{", "if lhs_exp > rhs_digits as isize + rhs_exp {",
+     "commuted operands of `+` in a condition (repr_cmp_same_base)"),
+    ("R4", "float/src/add.rs", r"&& rdigits_est \+ 1 < ediff", "&& 1 + rdigits_est < ediff",
+     "commuted operands of `+` in a condition (repr_add_large_small)"),
+    ("R5", "float/src/round_ops.rs", r"if self\.repr\.exponent >= 0 \{", "if !(self.repr.exponent < 0) {",
+     "`a >= b` written `!(a < b)` (FBig::trunc)"),
+    ("R6", "float/src/cmp.rs", r"return match ABS \|\| rhs\.exponent >= 0 \{\n\s*true => Ordering::Less,\n\s*false => Ordering::Greater,\n\s*\}",
+     "return if ABS || rhs.exponent >= 0 { Ordering::Less } else { Ordering::Greater }",
+     "`match` on a boolean written as `if` (repr_cmp_same_base)"),
+    ("R7", "rational/src/cmp.rs", r"if lhs_bits > rhs_bits \+ 1 \{", "if rhs_bits + 1 < lhs_bits {",
+     "`a > b` written `b < a` (rational repr_cmp)"),
+    ("R8", "rational/src/cmp.rs", r"if a\.numerator\.is_zero\(\) \{\n\s*return b\.numerator\.is_zero\(\);\n\s*\}",
+     "if !a.numerator.is_zero() {\n    } else {\n        return b.numerator.is_zero();\n    }",
+     "negated condition with an empty first arm (rational repr_eq)"),
+    ("R9", "integer/src/div_ops.rs", r"if r\.is_zero\(\) \{\n(\s*)r\n(\s*)\} else \{\n(\s*)\$mag1 - r\.into_typed\(\)\n(\s*)\}",
+     "if !r.is_zero() {\n\\1$mag1 - r.into_typed()\n\\2} else {\n\\3r\n\\4}",
+     "negated condition with the two arms swapped (impl_ibig_rem_euclid)"),
+    ("R10", "integer/src/add_ops.rs", r"(\s*\(Positive, Positive\) => IBig\()\$mag0\.add\(\$mag1\)(\),\n)(\s*\(Positive, Negative\) => IBig\(\$mag0\.sub_signed\(\$mag1\)\),\n)(\s*\(Negative, Positive\) => IBig\(\$mag1\.sub_signed\(\$mag0\)\),\n)(\s*\(Negative, Negative\) => IBig\(\$mag0\.add\(\$mag1\)\.with_sign\(Negative\)\),\n)",
+     "\\5\\4\\3\\1$mag1.add($mag0)\\2",
+     "match arms reordered and `add` operands commuted (impl_ibig_add; /verif/benign/B5)"),
+    ("R11", "integer/src/bits.rs", r"(\s*\(Positive, Positive\) => IBig\(\$mag0\.bitand\(\$mag1\)\),\n)(\s*\(Positive, Negative\) => IBig\(\$mag0\.and_not\(\$mag1\.sub_one\(\)\.into_typed\(\)\)\),\n)",
+     "\\2\\1", "two match arms exchanged (impl_ibig_bitand)"),
+    ("R12", "float/src/round.rs", r"(impl Round for mode::Up \{.*?)if low_sign == Sign::Positive \{\n(\s*)Rounding::AddOne\n(\s*)\} else \{\n(\s*)Rounding::NoOp\n(\s*)\}",
+     "\\1if low_sign != Sign::Positive {\n\\2Rounding::NoOp\n\\3} else {\n\\4Rounding::AddOne\n\\5}",
+     "`==` test written `!=` with the arms swapped (mode::Up::round_low_part)"),
+    ("R13", "integer/src/bits.rs", r"\(Positive, Positive\) => IBig\(\$mag0\.bitand\(\$mag1\)\),", "(Positive, Positive) => IBig($mag1.bitand($mag0)),",
+     "commuted operands of `bitand` (impl_ibig_bitand)"),
+    ("R14", "float/src/round.rs", r"(impl Round for mode::HalfEven \{.*?match low_half_test\(\) \{\n)(\s*// \|rem\| < 1/2\n\s*Ordering::Less => Rounding::NoOp,\n)(.*?)(\s*// \|rem\| > 1/2\n\s*Ordering::Greater => \{.*?\n            \}\n)",
+     "\\1\\4\\3\\2", "match arms Less / Greater exchanged (mode::HalfEven::round_low_part)"),
+]
+
+
+def _theorem_modules_over(gen_file):
+    """theorem modules (lean/Dashu/Props/*.lean) whose import closure contains the given Gen file"""
+    pdir = os.path.join(ROOT, "lean", "Dashu", "Props")
+    out = []
+    for f in sorted(os.listdir(pdir)):
+        if f.endswith(".lean") and (f.startswith("Gen") or f in ("C17.lean", "C18.lean")):
+            m = "Dashu.Props." + f[:-5]
+            if gen_file in gen_files_needed([m]):
+                out.append(m)
+    return out
+
+
+def selftest(prove=False):
+    """(a) regenerate into a scratch directory and compare with lean/Dashu/Gen; (b) apply built-in
+    mutations to a scratch copy of the sources and show that each one changes the generated text or
+    fails closed; with --prove additionally (c) rebuild, in a scratch copy of the Lean project, the
+    theorem modules over each changed file and show that they no longer check.
+    Nothing is written under /repo or /verif; the scratch directory is removed."""
+    import tempfile, shutil, sys, subprocess
+    global REPO
+    bad = 0
+    base, _ = generate_all()
+    print("(a) regeneration from %s vs %s" % (REPO, GEN_DIR))
+    for fname in sorted(base):
+        text, err = base[fname]
+        path = os.path.join(GEN_DIR, fname)
+        cur = open(path).read() if os.path.exists(path) else None
+        if err is not None:
+            print("    %-20s FAILS CLOSED: %s" % (fname, err)); bad += 1
+        elif cur is None:
+            print("    %-20s not present in the tree" % fname); bad += 1
+        elif cur != text:
+            print("    %-20s DIFFERS from the tree" % fname); bad += 1
+        else:
+            print("    %-20s identical (%d lines)" % (fname, text.count("\n")))
+    scratch = tempfile.mkdtemp(prefix="extract-selftest-")
+    real_repo = REPO
+    try:
+        for crate in ("base", "integer", "float", "rational"):
+            shutil.copytree(os.path.join(real_repo, crate, "src"), os.path.join(scratch, crate, "src"))
+        REPO = scratch
+        clean, _ = generate_all()
+        if any(clean[f] != base[f] for f in base):
+            print("    scratch copy regenerates differently from %s" % real_repo); bad += 1
+        lean_scratch = None
+        if prove:
+            lean_scratch = os.path.join(scratch, "lean")
+            shutil.copytree(os.path.join(ROOT, "lean"), lean_scratch, symlinks=True)
+        print("(b) mutations of the Rust text (scratch copy %s)" % scratch)
+        print("    %-4s %-26s %-34s %s" % ("id", "file", "effect", "mutation"))
+        for mut in MUTATIONS:
+            mid, rel, pat, rep, what = mut[:5]
+            expect = mut[5] if len(mut) > 5 else "breaks"
+            path = os.path.join(scratch, rel)
+            orig = open(path).read()
+            new, n = re.subn(pat, rep, orig, count=1, flags=re.S)
+            if n != 1 or new == orig:
+                print("    %-4s %-26s %-34s %s" % (mid, rel, "PATTERN NOT FOUND (source moved on)", what)); bad += 1
+                continue
+            with open(path, "w") as f:
+                f.write(new)
+            try:
+                res, _ = generate_all()
+            finally:
+                with open(path, "w") as f:
+                    f.write(orig)
+            changed = [f for f in sorted(res) if res[f][0] is not None and res[f][0] != base[f][0]]
+            failed = [f for f in sorted(res) if res[f][1] is not None]
+            if failed:
+                eff = "fails closed: " + ", ".join(failed)
+                detail = res[failed[0]][1]
+            elif changed:
+                eff = "changes " + ", ".join(changed)
+                detail = None
+            else:
+                eff = "NO EFFECT"
+                detail = None
+                bad += 1
+            print("    %-4s %-26s %-34s %s" % (mid, rel, eff, what))
+            if detail:
+                print("         message: %s" % detail[:200])
+            if prove and changed and not failed:
+                gdir = os.path.join(lean_scratch, "Dashu", "Gen")
+                for f in changed:
+                    with open(os.path.join(gdir, f), "w") as fh:
+                        fh.write(res[f][0])
+                mods = sorted(set(m for f in changed for m in _theorem_modules_over(f)))
+                t0 = __import__("time").time()
+                r = subprocess.run(["lake", "build"] + mods, cwd=lean_scratch, stdout=subprocess.PIPE,
+                                   stderr=subprocess.STDOUT, text=True)
+                errs = [l for l in r.stdout.splitlines() if l.startswith("error:") and ".lean:" in l]
+                broken = sorted(set(l.split(":")[1].strip() for l in errs))
+                for f in changed:
+                    with open(os.path.join(gdir, f), "w") as fh:
+                        fh.write(base[f][0])
+                if r.returncode == 0 and expect == "model-calls-it":
+                    print("         no theorem is about this value: the hand model CALLS the regenerated definition "
+                          "(the driver runs with the new value; the correspondence check decides)")
+                elif r.returncode == 0:
+                    print("         theorems over the changed text STILL CHECK (%s)" % ", ".join(mods)); bad += 1
+                else:
+                    print("         theorem modules no longer check (%.0f s): %s" % (__import__("time").time() - t0, ", ".join(broken)[:300]))
+        print("(c) behaviour-preserving rewrites of the Rust text: the theorems must survive")
+        print("    %-4s %-26s %-34s %s" % ("id", "file", "effect", "rewrite"))
+        for mid, rel, pat, rep, what in BENIGN:
+            path = os.path.join(scratch, rel)
+            orig = open(path).read()
+            new, n = re.subn(pat, rep, orig, count=1, flags=re.S)
+            if n != 1 or new == orig:
+                print("    %-4s %-26s %-34s %s" % (mid, rel, "PATTERN NOT FOUND (source moved on)", what)); bad += 1
+                continue
+            with open(path, "w") as f:
+                f.write(new)
+            try:
+                res, _ = generate_all()
+            finally:
+                with open(path, "w") as f:
+                    f.write(orig)
+            changed = [f for f in sorted(res) if res[f][0] is not None and res[f][0] != base[f][0]]
+            failed = [f for f in sorted(res) if res[f][1] is not None]
+            if failed:
+                print("    %-4s %-26s %-34s %s" % (mid, rel, "fails closed: " + ", ".join(failed), what))
+                print("         message: %s" % res[failed[0]][1][:200])
+                print("         (a harmless rewrite the translator cannot read: reported as no-failing-input-found)")
+                continue
+            strip = lambda t: re.sub(r"/--.*?-/", "", t, flags=re.S)
+            if not changed or all(strip(res[f][0]) == strip(base[f][0]) for f in changed):
+                print("    %-4s %-26s %-34s %s" % (mid, rel, "same definitions (canonical text)", what))
+                continue
+            print("    %-4s %-26s %-34s %s" % (mid, rel, "changes " + ", ".join(changed), what))
+            if prove:
+                gdir = os.path.join(lean_scratch, "Dashu", "Gen")
+                for f in changed:
+                    with open(os.path.join(gdir, f), "w") as fh:
+                        fh.write(res[f][0])
+                mods = sorted(set(m for f in changed for m in _theorem_modules_over(f)))
+                t0 = __import__("time").time()
+                r = subprocess.run(["lake", "build"] + mods, cwd=lean_scratch, stdout=subprocess.PIPE,
+                                   stderr=subprocess.STDOUT, text=True)
+                errs = [l for l in r.stdout.splitlines() if l.startswith("error:") and ".lean:" in l]
+                broken = sorted(set(l.split(":")[1].strip() + ":" + l.split(":")[2] for l in errs))
+                for f in changed:
+                    with open(os.path.join(gdir, f), "w") as fh:
+                        fh.write(base[f][0])
+                if r.returncode == 0:
+                    print("         theorems over the rewritten text still check (%.0f s): %s" % (__import__("time").time() - t0, ", ".join(mods)))
+                else:
+                    print("         THEOREMS BROKEN BY A HARMLESS REWRITE: %s" % ", ".join(broken)[:400]); bad += 1
+            else:
+                print("         (run with --prove to rebuild the theorem modules over the rewritten text)")
+    finally:
+        REPO = real_repo
+        shutil.rmtree(scratch, ignore_errors=True)
+    print("self-test %s" % ("FAILED (%d problems)" % bad if bad else "passed: the tree's Gen files are what the sources say; every mutation changes the generated text or fails closed"))
+    return 1 if bad else 0
+
+
 if __name__ == "__main__":
-    ok, info = regenerate()
+    import sys
+    if "--selftest" in sys.argv:
+        raise SystemExit(selftest(prove="--prove" in sys.argv))
+    out = None
+    if "--out" in sys.argv:
+        out = sys.argv[sys.argv.index("--out") + 1]
+    ok, info = regenerate(out_dir=out)
     print(json.dumps(info, indent=1))
     raise SystemExit(0 if ok else 1)
